@@ -1,85 +1,1897 @@
-// temporary probe (replaced by the real harness)
-use grafeo_common::types::Value;
-use grafeo_engine::GrafeoDB;
+//! C11 — query results obey the algebra of predicates, limits and aggregates.
+//!
+//! (1) OPERATOR level: the real pull operators of grafeo-core (Filter with ExpressionPredicate,
+//!     Limit, Skip, LimitSkip, Distinct, Union, SimpleAggregate, HashAggregate) over a mock child
+//!     that yields generated chunks with arbitrary boundaries and selection vectors; the drained
+//!     rows are compared with the model (GV.Query.Run) and with the specification (oracle).
+//! (2) ENGINE level: generated small graphs (and one big table) through
+//!     `GrafeoDB::session().execute / execute_cypher`; the identities of the property are checked
+//!     on the engine's outputs (oracle) and every output is compared with the model.
+use std::collections::HashMap;
+use std::sync::Arc;
 
-fn show(db: &GrafeoDB, q: &str) {
-    let s = db.session();
-    match s.execute(q) {
-        Ok(r) => {
-            let n = r.rows.len();
-            let head: Vec<String> = r.rows.iter().take(12).map(|row| format!("{:?}", row)).collect();
-            println!("GQL  {q}\n   -> {n} rows {}", head.join(" "));
+use grafeo_common::types::{LogicalType, Value};
+use grafeo_core::execution::operators::{
+    AggregateExpr, BinaryFilterOp, DistinctOperator, ExpressionPredicate, FilterExpression, FilterOperator,
+    HashAggregateOperator, LimitOperator, LimitSkipOperator, Operator, OperatorResult, Predicate,
+    SimpleAggregateOperator, SkipOperator, UnaryFilterOp, UnionOperator,
+};
+use grafeo_core::execution::{DataChunk, SelectionVector, ValueVector};
+use grafeo_core::graph::lpg::LpgStore;
+use grafeo_engine::GrafeoDB;
+use gv_harness::*;
+
+// ------------------------------------------------------------------------------------ values
+
+#[derive(Clone, Debug)]
+enum V {
+    Null,
+    Bool(bool),
+    Int(i64),
+    Float(u64),
+    Str(String),
+    List(Vec<V>),
+}
+
+impl PartialEq for V {
+    // structural: floats by bit pattern
+    fn eq(&self, o: &V) -> bool {
+        match (self, o) {
+            (V::Null, V::Null) => true,
+            (V::Bool(a), V::Bool(b)) => a == b,
+            (V::Int(a), V::Int(b)) => a == b,
+            (V::Float(a), V::Float(b)) => a == b,
+            (V::Str(a), V::Str(b)) => a == b,
+            (V::List(a), V::List(b)) => a == b,
+            _ => false,
         }
-        Err(e) => println!("GQL  {q}\n   -> ERR {e}"),
-    }
-    match s.execute_cypher(q) {
-        Ok(r) => {
-            let n = r.rows.len();
-            let head: Vec<String> = r.rows.iter().take(12).map(|row| format!("{:?}", row)).collect();
-            println!("CYP  -> {n} rows {}", head.join(" "));
-        }
-        Err(e) => println!("CYP  -> ERR {e}"),
     }
 }
 
-fn main() {
-    let db = GrafeoDB::new_in_memory();
-    for i in 0..10i64 {
-        let n = db.create_node(&["L"]);
-        db.set_node_property(n, "x", Value::Int64(9 - i));
-        db.set_node_property(n, "a", Value::Int64(i % 2));
-        db.set_node_property(n, "b", Value::Int64(i % 3));
-        if i % 4 == 0 {
-            db.set_node_property(n, "f", Value::Float64(0.0));
-        } else if i % 4 == 1 {
-            db.set_node_property(n, "f", Value::Int64(0));
-        } else if i % 4 == 2 {
-            db.set_node_property(n, "f", Value::Float64(1.0));
-        } else {
-            db.set_node_property(n, "f", Value::Int64(4607182418800017408));
-        }
-        if i == 3 {
-            db.set_node_property(n, "nl", Value::Null);
-        }
-        if i == 4 {
-            db.set_node_property(n, "nl", Value::Int64(5));
+impl V {
+    fn to_value(&self) -> Value {
+        match self {
+            V::Null => Value::Null,
+            V::Bool(b) => Value::Bool(*b),
+            V::Int(i) => Value::Int64(*i),
+            V::Float(b) => Value::Float64(f64::from_bits(*b)),
+            V::Str(s) => Value::String(s.as_str().into()),
+            V::List(l) => Value::List(l.iter().map(|v| v.to_value()).collect::<Vec<_>>().into()),
         }
     }
-    show(&db, "MATCH (n:L) RETURN n.x blah blah");
-    show(&db, "MATCH (n:L) RETURN count(n)");
-    show(&db, "MATCH (n:L) RETURN count(n) LIMIT 1");
-    show(&db, "MATCH (n:L) RETURN count(n) SKIP 3");
-    show(&db, "MATCH (n:L) RETURN count(n) AS c SKIP 3 LIMIT 2");
-    show(&db, "MATCH (n:L) RETURN n.f, count(n)");
-    show(&db, "MATCH (n:L) RETURN n.a, count(n)");
-    show(&db, "MATCH (n:L) RETURN n.a AS a, count(n) AS c ORDER BY a");
-    show(&db, "MATCH (n:L) RETURN n.x AS x ORDER BY x SKIP 2 LIMIT 3");
-    show(&db, "MATCH (n:L) RETURN n.x AS x ORDER BY x");
-    show(&db, "MATCH (n:L) WITH n.x AS x RETURN x ORDER BY x SKIP 2 LIMIT 3");
-    show(&db, "MATCH (n:L) WITH n ORDER BY n.x RETURN n.x SKIP 2 LIMIT 3");
-    show(&db, "MATCH (n:L) RETURN n ORDER BY n.x SKIP 2 LIMIT 3");
-    show(&db, "MATCH (n:L) WHERE n.x IS NULL RETURN n.x");
-    show(&db, "MATCH (n:L) WHERE n.nl IS NULL RETURN n.x");
-    show(&db, "MATCH (n:L) WHERE n.nl IS NOT NULL RETURN n.x");
-    show(&db, "MATCH (n:L) WHERE n.x > 5 RETURN n.x");
-    show(&db, "MATCH (n:L) WHERE NOT (n.x > 5) RETURN n.x");
-    show(&db, "MATCH (n:L) WHERE n.x > 5 OR n.a = 0 RETURN n.x");
-    show(&db, "MATCH (n:L) WHERE n.x STARTS WITH 'a' RETURN n.x");
-    show(&db, "MATCH (n:L) WHERE 'abc' STARTS WITH 'a' RETURN n.x LIMIT 1");
-    show(&db, "MATCH (n:L) WHERE 'abc' CONTAINS 'bc' AND 'abc' ENDS WITH 'c' RETURN n.x LIMIT 1");
-    show(&db, "MATCH (n:L) WHERE n.x % 3 = 1 RETURN n.x");
-    show(&db, "MATCH (n:L) WHERE -n.x < -7 RETURN n.x");
-    show(&db, "MATCH (n:L) WHERE n.x * 4611686018427387904 > 0 RETURN n.x");
-    show(&db, "MATCH (n:L) WHERE (n.x * 4611686018427387904 > 0) IS NULL RETURN n.x");
-    show(&db, "MATCH (n:L) WHERE n.zz = 1 OR true RETURN n.x");
-    show(&db, "MATCH (n:L) WHERE (n.zz = 1 OR true) IS NULL RETURN n.x");
-    show(&db, "MATCH (n:L) WHERE NOT (n.zz = 1 OR true) RETURN n.x");
-    show(&db, "MATCH (n:L) WHERE n.zz = 1 AND false RETURN n.x");
-    show(&db, "MATCH (n:L) WHERE true RETURN count(n)");
-    show(&db, "MATCH (n:L) WHERE n.x > 100 RETURN count(n)");
-    show(&db, "MATCH (n:L) WITH DISTINCT n.a AS a RETURN a");
-    show(&db, "MATCH (n:L) WITH DISTINCT n.a AS a, n.b AS b RETURN a, b");
-    show(&db, "MATCH (n:L) RETURN n.x LIMIT 0");
-    show(&db, "MATCH (n:L) RETURN n.x SKIP 20");
-    show(&db, "MATCH (n:L) RETURN n.x SKIP 9");
+    fn from_value(v: &Value) -> V {
+        match v {
+            Value::Null => V::Null,
+            Value::Bool(b) => V::Bool(*b),
+            Value::Int64(i) => V::Int(*i),
+            Value::Float64(f) => V::Float(f.to_bits()),
+            Value::String(s) => V::Str(s.to_string()),
+            Value::List(l) => V::List(l.iter().map(V::from_value).collect()),
+            other => V::Str(format!("<unmodelled {:?}>", other)),
+        }
+    }
+    fn coq(&self) -> String {
+        match self {
+            V::Null => "VNull".into(),
+            V::Bool(b) => format!("(VBool {})", coq::b(*b)),
+            V::Int(i) => format!("(VInt {})", coq::z(*i)),
+            V::Float(b) => format!("(VFloat {})", coq::zu(*b)),
+            V::Str(s) => format!("(VStr {})", coq::str_bytes(s)),
+            V::List(l) => format!("(VList {})", coq::list(l.iter().map(|v| v.coq()))),
+        }
+    }
+    fn show(&self) -> String {
+        match self {
+            V::Null => "null".into(),
+            V::Bool(b) => format!("{}", b),
+            V::Int(i) => format!("{}", i),
+            V::Float(b) => format!("{:?}f", f64::from_bits(*b)),
+            V::Str(s) => format!("'{}'", s),
+            V::List(l) => format!("[{}]", l.iter().map(|v| v.show()).collect::<Vec<_>>().join(",")),
+        }
+    }
+    /// literal text in GQL / Cypher (None when the generators must not print it)
+    fn text(&self) -> Option<String> {
+        match self {
+            V::Null => Some("null".into()),
+            V::Bool(b) => Some(format!("{}", b)),
+            V::Int(i) if *i >= 0 => Some(format!("{}", i)),
+            V::Int(_) => None,
+            V::Float(b) => {
+                let f = f64::from_bits(*b);
+                if f.is_finite() && f >= 0.0 && f < 1e6 && (f * 4.0).fract() == 0.0 {
+                    Some(format!("{:?}", f))
+                } else {
+                    None
+                }
+            }
+            V::Str(s) if s.chars().all(|c| c.is_ascii_alphanumeric() || c == ' ') => Some(format!("'{}'", s)),
+            V::Str(_) => None,
+            V::List(l) => {
+                let mut parts = Vec::new();
+                for v in l {
+                    parts.push(v.text()?);
+                }
+                Some(format!("[{}]", parts.join(", ")))
+            }
+        }
+    }
+}
+
+fn coq_row(r: &[V]) -> String {
+    coq::list(r.iter().map(|v| v.coq()))
+}
+fn coq_rows(rs: &[Vec<V>]) -> String {
+    coq::list(rs.iter().map(|r| coq_row(r)))
+}
+fn coq_ov(o: &Option<V>) -> String {
+    match o {
+        Some(v) => format!("(Some {})", v.coq()),
+        None => "None".into(),
+    }
+}
+fn coq_env(e: &[Option<V>]) -> String {
+    coq::list(e.iter().map(coq_ov))
+}
+fn coq_oz(o: Option<i64>) -> String {
+    match o {
+        Some(v) => format!("(Some {})", coq::z(v)),
+        None => "None".into(),
+    }
+}
+fn show_rows(rs: &[Vec<V>]) -> String {
+    let mut s = String::new();
+    for (i, r) in rs.iter().enumerate() {
+        if i >= 40 {
+            s.push_str(&format!(" …(+{})", rs.len() - i));
+            break;
+        }
+        s.push('(');
+        s.push_str(&r.iter().map(|v| v.show()).collect::<Vec<_>>().join(","));
+        s.push(')');
+    }
+    s
+}
+fn show_ints(xs: &[i64]) -> String {
+    if xs.len() <= 30 {
+        format!("{:?}", xs)
+    } else {
+        format!("{:?}…(+{}) last={}", &xs[..20], xs.len() - 20, xs[xs.len() - 1])
+    }
+}
+/// runs (start, len) of consecutive integers
+fn runs(xs: &[i64]) -> Vec<(i64, i64)> {
+    let mut r: Vec<(i64, i64)> = Vec::new();
+    for &x in xs {
+        if let Some(l) = r.last_mut() {
+            if l.0 + l.1 == x {
+                l.1 += 1;
+                continue;
+            }
+        }
+        r.push((x, 1));
+    }
+    r
+}
+fn coq_runs(rs: &[(i64, i64)]) -> String {
+    coq::list(rs.iter().map(|(a, n)| format!("({}, {})", coq::z(*a), coq::z(*n))))
+}
+
+const I_EXT: [i64; 12] = [
+    0, 1, -1, 2, 5, 7, i64::MAX, i64::MIN, i64::MAX - 1, i64::MIN + 1, 1 << 53, (1 << 53) + 1,
+];
+fn f(x: f64) -> V {
+    V::Float(x.to_bits())
+}
+fn gen_int(r: &mut Rng) -> i64 {
+    match r.below(6) {
+        0 => *r.pick(&I_EXT),
+        1 | 2 => r.range(-3, 8),
+        3 => r.range(-100, 100),
+        4 => *r.pick(&[4611686018427387904i64, -4611686018427387904, 3037000500, 4607182418800017408, 0]),
+        _ => r.range(0, 3),
+    }
+}
+fn gen_float(r: &mut Rng) -> V {
+    match r.below(8) {
+        0 => f(*r.pick(&[0.0, -0.0, 1.0, 1.5, 2.0, -1.0, 0.5, 7.0, 5.0])),
+        1 => f(*r.pick(&[f64::NAN, f64::INFINITY, f64::NEG_INFINITY, f64::MAX, f64::MIN_POSITIVE, 5e-324, -5e-324])),
+        2 => f(*r.pick(&[1e-17, 2e-17, 1.0 + f64::EPSILON, 1.0 - f64::EPSILON / 2.0, 2.0f64.powi(-53), 3e-16, 2.2e-16])),
+        3 => f(*r.pick(&[9007199254740992.0, 9007199254740994.0, 9223372036854775807.0, -9223372036854775808.0, 4611686018427387904.0])),
+        4 => V::Float(0x7ff8_0000_0000_0001), // NaN with payload
+        _ => f(r.range(-6, 14) as f64 / 2.0),
+    }
+}
+fn gen_str(r: &mut Rng) -> String {
+    (*r.pick(&["", "a", "ab", "abc", "b", "ba", "abcabc", "B", "a b", "zz", "é", "aé"])).to_string()
+}
+fn gen_scalar(r: &mut Rng) -> V {
+    match r.below(10) {
+        0 => V::Null,
+        1 | 2 => V::Bool(r.chance(1, 2)),
+        3 | 4 | 5 => V::Int(gen_int(r)),
+        6 | 7 => gen_float(r),
+        _ => V::Str(gen_str(r)),
+    }
+}
+fn gen_nofloat(r: &mut Rng) -> V {
+    loop {
+        let v = gen_scalar(r);
+        if !matches!(v, V::Float(_)) {
+            return v;
+        }
+    }
+}
+fn gen_list(r: &mut Rng, with_float: bool) -> V {
+    let n = r.below(4) as usize;
+    V::List(
+        (0..n)
+            .map(|_| match r.below(if with_float { 6 } else { 5 }) {
+                0 => V::Null,
+                1 | 2 => V::Int(r.range(-2, 5)),
+                3 => V::Str((*r.pick(&["a", "ab", "abc", "x y"])).to_string()),
+                4 => V::Bool(r.chance(1, 2)),
+                _ => gen_float(r),
+            })
+            .collect(),
+    )
+}
+fn gen_value(r: &mut Rng) -> V {
+    if r.chance(1, 10) { gen_list(r, true) } else { gen_scalar(r) }
+}
+
+// ------------------------------------------------------------------------------------ expressions
+
+#[derive(Clone, Copy, Debug, PartialEq)]
+enum Op {
+    Eq, Ne, Lt, Le, Gt, Ge, And, Or, Xor, Add, Sub, Mul, Div, Mod, StartsWith, EndsWith, Contains, In,
+}
+#[derive(Clone, Copy, Debug, PartialEq)]
+enum UOp {
+    Not, IsNull, IsNotNull, Neg,
+}
+#[derive(Clone, Debug)]
+enum E {
+    Lit(V),
+    Var(usize),
+    Bin(Op, Box<E>, Box<E>),
+    Un(UOp, Box<E>),
+    List(Vec<E>),
+}
+#[derive(Clone, Copy, PartialEq)]
+enum Lang {
+    Gql,
+    Cypher,
+}
+impl Lang {
+    fn coq(&self) -> &'static str {
+        match self { Lang::Gql => "Gql", Lang::Cypher => "Cypher" }
+    }
+    fn name(&self) -> &'static str {
+        match self { Lang::Gql => "gql", Lang::Cypher => "cypher" }
+    }
+}
+
+impl Op {
+    fn coq(&self) -> &'static str {
+        match self {
+            Op::Eq => "Eq", Op::Ne => "Ne", Op::Lt => "Lt", Op::Le => "Le", Op::Gt => "Gt", Op::Ge => "Ge",
+            Op::And => "And", Op::Or => "Or", Op::Xor => "Xor", Op::Add => "Add", Op::Sub => "Sub",
+            Op::Mul => "Mul", Op::Div => "Div", Op::Mod => "Mod", Op::StartsWith => "StartsWith",
+            Op::EndsWith => "EndsWith", Op::Contains => "Contains", Op::In => "InList",
+        }
+    }
+    fn filter(&self) -> BinaryFilterOp {
+        match self {
+            Op::Eq => BinaryFilterOp::Eq, Op::Ne => BinaryFilterOp::Ne, Op::Lt => BinaryFilterOp::Lt,
+            Op::Le => BinaryFilterOp::Le, Op::Gt => BinaryFilterOp::Gt, Op::Ge => BinaryFilterOp::Ge,
+            Op::And => BinaryFilterOp::And, Op::Or => BinaryFilterOp::Or, Op::Xor => BinaryFilterOp::Xor,
+            Op::Add => BinaryFilterOp::Add, Op::Sub => BinaryFilterOp::Sub, Op::Mul => BinaryFilterOp::Mul,
+            Op::Div => BinaryFilterOp::Div, Op::Mod => BinaryFilterOp::Mod,
+            Op::StartsWith => BinaryFilterOp::StartsWith, Op::EndsWith => BinaryFilterOp::EndsWith,
+            Op::Contains => BinaryFilterOp::Contains, Op::In => BinaryFilterOp::In,
+        }
+    }
+    fn text(&self, l: Lang) -> Option<&'static str> {
+        Some(match self {
+            Op::Eq => "=", Op::Ne => "<>", Op::Lt => "<", Op::Le => "<=", Op::Gt => ">", Op::Ge => ">=",
+            Op::And => "AND", Op::Or => "OR",
+            Op::Xor => if l == Lang::Cypher { "XOR" } else { return None },
+            Op::Add => "+", Op::Sub => "-", Op::Mul => "*", Op::Div => "/", Op::Mod => "%",
+            Op::StartsWith => "STARTS WITH", Op::EndsWith => "ENDS WITH", Op::Contains => "CONTAINS",
+            Op::In => if l == Lang::Cypher { "IN" } else { return None },
+        })
+    }
+}
+
+#[derive(Clone, Copy, PartialEq)]
+enum Mode {
+    Col,  // EVar i = Variable("c<i>") (column i of the chunk)
+    Prop, // EVar i = Property { variable: "n", property: "p<i>" }
+}
+
+impl E {
+    fn coq(&self) -> String {
+        match self {
+            E::Lit(v) => format!("(ELit {})", v.coq()),
+            E::Var(i) => format!("(EVar {})", coq::nat(*i)),
+            E::Bin(op, l, r) => format!("(EBin {} {} {})", op.coq(), l.coq(), r.coq()),
+            E::Un(op, a) => format!(
+                "(EUn {} {})",
+                match op { UOp::Not => "Not", UOp::IsNull => "IsNull", UOp::IsNotNull => "IsNotNull", UOp::Neg => "Neg" },
+                a.coq()
+            ),
+            E::List(es) => format!("(EList {})", coq::list(es.iter().map(|e| e.coq()))),
+        }
+    }
+    fn filter(&self, m: Mode) -> FilterExpression {
+        match self {
+            E::Lit(v) => FilterExpression::Literal(v.to_value()),
+            E::Var(i) => match m {
+                Mode::Col => FilterExpression::Variable(format!("c{}", i)),
+                Mode::Prop => FilterExpression::Property { variable: "n".into(), property: format!("p{}", i) },
+            },
+            E::Bin(op, l, r) => FilterExpression::Binary {
+                left: Box::new(l.filter(m)),
+                op: op.filter(),
+                right: Box::new(r.filter(m)),
+            },
+            E::Un(op, a) => FilterExpression::Unary {
+                op: match op {
+                    UOp::Not => UnaryFilterOp::Not,
+                    UOp::IsNull => UnaryFilterOp::IsNull,
+                    UOp::IsNotNull => UnaryFilterOp::IsNotNull,
+                    UOp::Neg => UnaryFilterOp::Neg,
+                },
+                operand: Box::new(a.filter(m)),
+            },
+            E::List(es) => FilterExpression::List(es.iter().map(|e| e.filter(m)).collect()),
+        }
+    }
+    /// fully parenthesised query text; None when the language (or our literal printer) cannot express it
+    fn text(&self, l: Lang) -> Option<String> {
+        Some(match self {
+            E::Lit(v) => v.text()?,
+            E::Var(i) => format!("n.p{}", i),
+            E::Bin(op, a, b) => format!("({} {} {})", a.text(l)?, op.text(l)?, b.text(l)?),
+            E::Un(UOp::Not, a) => format!("(NOT {})", a.text(l)?),
+            E::Un(UOp::Neg, a) => format!("(-{})", a.text(l)?),
+            E::Un(UOp::IsNull, a) => {
+                if l != Lang::Cypher { return None; }
+                format!("({} IS NULL)", a.text(l)?)
+            }
+            E::Un(UOp::IsNotNull, a) => {
+                if l != Lang::Cypher { return None; }
+                format!("({} IS NOT NULL)", a.text(l)?)
+            }
+            E::List(es) => {
+                if l != Lang::Cypher { return None; }
+                let mut parts = Vec::new();
+                for e in es {
+                    parts.push(e.text(l)?);
+                }
+                format!("[{}]", parts.join(", "))
+            }
+        })
+    }
+    fn show(&self) -> String {
+        match self {
+            E::Lit(v) => v.show(),
+            E::Var(i) => format!("v{}", i),
+            E::Bin(op, a, b) => format!("({} {} {})", a.show(), op.coq(), b.show()),
+            E::Un(op, a) => format!("({:?} {})", op, a.show()),
+            E::List(es) => format!("[{}]", es.iter().map(|e| e.show()).collect::<Vec<_>>().join(",")),
+        }
+    }
+    fn has(&self, f: &dyn Fn(&E) -> bool) -> bool {
+        if f(self) {
+            return true;
+        }
+        match self {
+            E::Bin(_, a, b) => a.has(f) || b.has(f),
+            E::Un(_, a) => a.has(f),
+            E::List(es) => es.iter().any(|e| e.has(f)),
+            _ => false,
+        }
+    }
+}
+
+/// what kind of literals the generator may use
+#[derive(Clone, Copy)]
+struct GenCtx {
+    nvars: usize,
+    text_only: bool, // literals must be printable in query text (engine level)
+}
+
+fn gen_lit(r: &mut Rng, c: GenCtx) -> V {
+    if c.text_only {
+        match r.below(10) {
+            0 => V::Null,
+            1 => V::Bool(r.chance(1, 2)),
+            2 | 3 | 4 => V::Int(*r.pick(&[0i64, 1, 2, 3, 5, 7, i64::MAX, i64::MAX - 1, 4611686018427387904, 9007199254740993])),
+            5 => V::Int(r.range(0, 9)),
+            6 => f(r.range(0, 14) as f64 / 2.0),
+            _ => V::Str((*r.pick(&["", "a", "ab", "abc", "b", "ba", "B", "a b"])).to_string()),
+        }
+    } else {
+        gen_scalar(r)
+    }
+}
+
+/// a numeric-ish expression (arithmetic inside comparisons)
+fn gen_arith(r: &mut Rng, c: GenCtx, d: u32) -> E {
+    if d == 0 || r.chance(2, 5) {
+        // variable 0 never holds a float (float arithmetic is not interpreted by the model);
+        // variable number nvars does not exist
+        return if r.chance(3, 5) {
+            if r.chance(1, 6) { E::Var(c.nvars) } else { E::Var(0) }
+        } else if c.text_only {
+            E::Lit(V::Int(*r.pick(&[0i64, 1, 2, 3, 5, i64::MAX, 4611686018427387904, 3037000500])))
+        } else {
+            E::Lit(if r.chance(4, 5) { V::Int(gen_int(r)) } else { gen_nofloat(r) })
+        };
+    }
+    if r.chance(1, 6) {
+        return E::Un(UOp::Neg, Box::new(gen_arith(r, c, d - 1)));
+    }
+    let op = *r.pick(&[Op::Add, Op::Sub, Op::Mul, Op::Div, Op::Mod, Op::Add, Op::Sub]);
+    E::Bin(op, Box::new(gen_arith(r, c, d - 1)), Box::new(gen_arith(r, c, d - 1)))
+}
+
+fn gen_operand(r: &mut Rng, c: GenCtx, d: u32) -> E {
+    match r.below(6) {
+        0 | 1 => E::Var(r.below(c.nvars as u64 + 1) as usize),
+        2 => E::Lit(gen_lit(r, c)),
+        _ => gen_arith(r, c, d),
+    }
+}
+
+/// a predicate: boolean-typed at the top unless `any` is requested
+fn gen_pred(r: &mut Rng, c: GenCtx, d: u32) -> E {
+    let k = if d == 0 { r.below(6) } else { r.below(12) };
+    match k {
+        0 | 1 | 2 => {
+            let op = *r.pick(&[Op::Eq, Op::Ne, Op::Lt, Op::Le, Op::Gt, Op::Ge]);
+            E::Bin(op, Box::new(gen_operand(r, c, 1)), Box::new(gen_operand(r, c, 1)))
+        }
+        3 => {
+            let op = *r.pick(&[Op::StartsWith, Op::EndsWith, Op::Contains]);
+            let a = if r.chance(3, 4) { E::Var(r.below(c.nvars as u64) as usize) } else { E::Lit(gen_lit(r, c)) };
+            let b = if r.chance(3, 4) {
+                E::Lit(V::Str((*r.pick(&["", "a", "ab", "b", "c", "bc"])).to_string()))
+            } else {
+                gen_operand(r, c, 0)
+            };
+            E::Bin(op, Box::new(a), Box::new(b))
+        }
+        4 => {
+            let n = r.below(4) as usize;
+            let items: Vec<E> = (0..n)
+                .map(|_| if r.chance(1, 6) { E::Var(r.below(c.nvars as u64 + 1) as usize) } else { E::Lit(gen_lit(r, c)) })
+                .collect();
+            let rhs = if r.chance(1, 8) { gen_operand(r, c, 0) } else { E::List(items) };
+            E::Bin(Op::In, Box::new(gen_operand(r, c, 1)), Box::new(rhs))
+        }
+        5 => {
+            let op = *r.pick(&[UOp::IsNull, UOp::IsNotNull]);
+            E::Un(op, Box::new(if r.chance(1, 2) { gen_operand(r, c, 1) } else { gen_pred(r, c, 0) }))
+        }
+        6 | 7 | 8 => {
+            let op = *r.pick(&[Op::And, Op::Or, Op::And, Op::Or, Op::Xor]);
+            let a = if r.chance(1, 8) { gen_operand(r, c, 0) } else { gen_pred(r, c, d - 1) };
+            let b = if r.chance(1, 8) { gen_operand(r, c, 0) } else { gen_pred(r, c, d - 1) };
+            E::Bin(op, Box::new(a), Box::new(b))
+        }
+        9 | 10 => E::Un(UOp::Not, Box::new(if r.chance(1, 8) { gen_operand(r, c, 0) } else { gen_pred(r, c, d - 1) })),
+        _ => E::Lit(match r.below(3) { 0 => V::Bool(true), 1 => V::Bool(false), _ => V::Null }),
+    }
+}
+
+// ------------------------------------------------------------------------------------ chunks
+
+#[derive(Clone)]
+struct Chunk {
+    rows: Vec<Vec<V>>,
+    sel: Option<Vec<usize>>,
+}
+impl Chunk {
+    fn logical(&self) -> Vec<Vec<V>> {
+        match &self.sel {
+            None => self.rows.clone(),
+            Some(s) => s.iter().map(|&i| self.rows[i].clone()).collect(),
+        }
+    }
+    fn coq(&self) -> String {
+        format!(
+            "(mkChunk {} {})",
+            coq_rows(&self.rows),
+            match &self.sel {
+                None => "None".to_string(),
+                Some(s) => format!("(Some (zl {}))", coq::list(s.iter().map(|i| format!("{}", i)))),
+            }
+        )
+    }
+    fn build(&self, ncols: usize, typed_int: bool) -> DataChunk {
+        let mut cols: Vec<ValueVector> = (0..ncols)
+            .map(|_| ValueVector::with_type(if typed_int { LogicalType::Int64 } else { LogicalType::Any }))
+            .collect();
+        for r in &self.rows {
+            for (c, v) in r.iter().enumerate() {
+                cols[c].push_value(v.to_value());
+            }
+        }
+        let mut ch = DataChunk::new(cols);
+        ch.set_count(self.rows.len());
+        if let Some(s) = &self.sel {
+            let mut sv = SelectionVector::new_empty();
+            for &i in s {
+                sv.push(i);
+            }
+            ch.set_selection(sv);
+        }
+        ch
+    }
+}
+fn coq_chunks(cs: &[Chunk]) -> String {
+    coq::list(cs.iter().map(|c| c.coq()))
+}
+fn show_chunks(cs: &[Chunk]) -> String {
+    cs.iter()
+        .map(|c| format!("{{{}{}}}", show_rows(&c.rows), match &c.sel { None => "".into(), Some(s) => format!(" sel={:?}", s) }))
+        .collect::<Vec<_>>()
+        .join(" ")
+}
+
+struct Mock {
+    chunks: Vec<Option<DataChunk>>,
+    pos: usize,
+}
+impl Mock {
+    fn new(chunks: Vec<DataChunk>) -> Box<Mock> {
+        Box::new(Mock { chunks: chunks.into_iter().map(Some).collect(), pos: 0 })
+    }
+}
+impl Operator for Mock {
+    fn next(&mut self) -> OperatorResult {
+        if self.pos < self.chunks.len() {
+            let c = self.chunks[self.pos].take();
+            self.pos += 1;
+            Ok(c)
+        } else {
+            Ok(None)
+        }
+    }
+    fn reset(&mut self) {
+        self.pos = 0;
+    }
+    fn name(&self) -> &'static str {
+        "Mock"
+    }
+}
+
+/// `Executor::execute`: next() until None, logical rows through selected_indices / get_value
+fn drain(op: &mut dyn Operator) -> (Vec<Vec<V>>, Vec<usize>) {
+    let mut rows = Vec::new();
+    let mut counts = Vec::new();
+    let mut guard = 0;
+    while let Some(ch) = op.next().expect("operator error") {
+        counts.push(ch.row_count());
+        for ri in ch.selected_indices() {
+            let mut row = Vec::new();
+            for ci in 0..ch.column_count() {
+                let v = ch.column(ci).and_then(|c| c.get_value(ri)).unwrap_or(Value::Null);
+                row.push(V::from_value(&v));
+            }
+            rows.push(row);
+        }
+        guard += 1;
+        assert!(guard < 1_000_000, "operator does not terminate");
+    }
+    (rows, counts)
+}
+
+fn gen_sel(r: &mut Rng, n: usize) -> Option<Vec<usize>> {
+    match r.below(5) {
+        0 | 1 => None,
+        2 => Some((0..n).filter(|_| r.chance(1, 2)).collect()),
+        3 => Some((0..n).filter(|_| r.chance(4, 5)).collect()),
+        _ => {
+            if r.chance(1, 3) { Some(vec![]) } else { Some((0..n).collect()) }
+        }
+    }
+}
+
+// ------------------------------------------------------------------------------------ operator level
+
+fn tag(ts: &[&str]) -> Vec<String> {
+    ts.iter().map(|s| s.to_string()).collect()
+}
+
+/// eval: the real `ExpressionPredicate::eval_at` / `evaluate` on every row, columns or node properties
+fn case_eval(r: &mut Rng, out: &mut Out, forced: Option<(E, Vec<Vec<Option<V>>>)>) {
+    let nvars = 3usize;
+    let ctx = GenCtx { nvars, text_only: false };
+    let (e, envs) = match forced {
+        Some(x) => x,
+        None => {
+            let e = if r.chance(1, 6) { gen_operand(r, ctx, 2) } else { gen_pred(r, ctx, 2) };
+            let nrows = 2 + r.below(4) as usize;
+            let all_present = r.chance(1, 3);
+            let envs: Vec<Vec<Option<V>>> = (0..nrows)
+                .map(|_| (0..nvars).map(|i| if !all_present && r.chance(1, 6) { None } else if i == 0 { Some(gen_nofloat(r)) } else { Some(gen_value(r)) }).collect())
+                .collect();
+            (e, envs)
+        }
+    };
+    let has_missing = envs.iter().any(|en| en.iter().any(|o| o.is_none()));
+    // mode Col cannot express a per-row missing value
+    let mode = if has_missing || r.chance(1, 2) { Mode::Prop } else { Mode::Col };
+    let store = Arc::new(LpgStore::new());
+    let mut vc = HashMap::new();
+    let chunk = match mode {
+        Mode::Col => {
+            for i in 0..nvars {
+                vc.insert(format!("c{}", i), i);
+            }
+            let rows: Vec<Vec<V>> = envs.iter().map(|en| en.iter().map(|o| o.clone().unwrap()).collect()).collect();
+            Chunk { rows, sel: None }.build(nvars, false)
+        }
+        Mode::Prop => {
+            vc.insert("n".to_string(), 0usize);
+            let mut col = ValueVector::with_type(if r.chance(1, 2) { LogicalType::Node } else { LogicalType::Any });
+            for en in &envs {
+                let id = store.create_node(&["L"]);
+                for (i, o) in en.iter().enumerate() {
+                    if let Some(v) = o {
+                        store.set_node_property(id, &format!("p{}", i), v.to_value());
+                    }
+                }
+                col.push_value(Value::Int64(id.0 as i64));
+            }
+            let mut ch = DataChunk::new(vec![col]);
+            ch.set_count(envs.len());
+            ch
+        }
+    };
+    let pred = ExpressionPredicate::new(e.filter(mode), vc, Arc::clone(&store));
+    let mut obs = Vec::new();
+    let mut pass = Vec::new();
+    for i in 0..envs.len() {
+        obs.push(pred.eval_at(&chunk, i).map(|v| V::from_value(&v)));
+        pass.push(pred.evaluate(&chunk, i));
+    }
+    let unknown = obs.iter().any(|o| matches!(o, None | Some(V::Null)));
+    let mut tags = tag(&["op:eval", if mode == Mode::Col { "eval:columns" } else { "eval:properties" }]);
+    if unknown { tags.push("pred:unknown-on-some-row".into()); }
+    if e.has(&|x| matches!(x, E::Bin(Op::Add | Op::Sub | Op::Mul | Op::Div | Op::Mod, _, _))) { tags.push("pred:arithmetic".into()); }
+    if e.has(&|x| matches!(x, E::Bin(Op::In, _, _))) { tags.push("pred:in".into()); }
+    if e.has(&|x| matches!(x, E::Bin(Op::StartsWith | Op::EndsWith | Op::Contains, _, _))) { tags.push("pred:string".into()); }
+    if e.has(&|x| matches!(x, E::Bin(Op::And | Op::Or | Op::Xor, _, _) | E::Un(UOp::Not, _))) { tags.push("pred:connective".into()); }
+    let envs_coq = coq::list(envs.iter().map(|en| coq_env(en)));
+    out.emit(&Case {
+        kind: "eval".into(),
+        input: format!("{} on {}", e.show(), envs.iter().map(|en| format!("[{}]", en.iter().map(|o| o.as_ref().map_or("-".into(), |v| v.show())).collect::<Vec<_>>().join(","))).collect::<Vec<_>>().join(" ")),
+        coq: Some(format!("chk_eval {} {} {} {}", e.coq(), envs_coq, coq::list(obs.iter().map(coq_ov)), coq::list(pass.iter().map(|b| coq::b(*b))))),
+        show: Some(format!("show_eval {} {}", e.coq(), envs_coq)),
+        oracle: Oracle::Na,
+        nontrivial: unknown,
+        imp: format!("{:?} pass={:?}", obs.iter().map(|o| o.as_ref().map_or("None".into(), |v| v.show())).collect::<Vec<_>>(), pass),
+        tags,
+        ..Default::default()
+    });
+}
+
+fn gen_small_chunks(r: &mut Rng, ncols: usize, vals: &dyn Fn(&mut Rng, usize) -> V) -> Vec<Chunk> {
+    let nch = r.below(5) as usize;
+    (0..nch)
+        .map(|_| {
+            let n = match r.below(6) { 0 => 0, 1 => 1, _ => r.below(7) as usize };
+            let rows: Vec<Vec<V>> = (0..n).map(|_| (0..ncols).map(|c| vals(r, c)).collect()).collect();
+            let sel = gen_sel(r, n);
+            Chunk { rows, sel }
+        })
+        .collect()
+}
+
+fn case_filter(r: &mut Rng, out: &mut Out, forced: Option<(E, Vec<Chunk>)>) {
+    let ncols = 2usize;
+    let (p, cs) = match forced {
+        Some(x) => x,
+        None => {
+            let ctx = GenCtx { nvars: ncols, text_only: false };
+            let p = gen_pred(r, ctx, 2);
+            let cs = gen_small_chunks(r, ncols, &|r, c| match r.below(8) { 0 => V::Null, 1 => V::Bool(r.chance(1, 2)), 2 => V::Str(gen_str(r)), 3 => if c == 0 { V::Int(gen_int(r)) } else { gen_float(r) }, _ => V::Int(r.range(-2, 6)) });
+            (p, cs)
+        }
+    };
+    let store = Arc::new(LpgStore::new());
+    let mut vc = HashMap::new();
+    for i in 0..ncols {
+        vc.insert(format!("c{}", i), i);
+    }
+    // specification: the logical rows the (real) predicate accepts
+    let spec_pred = ExpressionPredicate::new(p.filter(Mode::Col), vc.clone(), Arc::clone(&store));
+    let mut expected = Vec::new();
+    let mut unknown = false;
+    for c in &cs {
+        let ch = c.build(ncols, false);
+        for ri in ch.selected_indices() {
+            if spec_pred.evaluate(&ch, ri) {
+                expected.push(c.rows[ri].clone());
+            }
+            if matches!(spec_pred.eval_at(&ch, ri), None | Some(Value::Null)) {
+                unknown = true;
+            }
+        }
+    }
+    let pred = ExpressionPredicate::new(p.filter(Mode::Col), vc, store);
+    let mut op = FilterOperator::new(Mock::new(cs.iter().map(|c| c.build(ncols, false)).collect()), Box::new(pred));
+    let (rows, _) = drain(&mut op);
+    let ok = rows == expected;
+    let has_sel = cs.iter().any(|c| c.sel.is_some());
+    let mut tags = tag(&["op:filter"]);
+    if has_sel { tags.push("filter:input-has-selection".into()); }
+    if unknown { tags.push("pred:unknown-on-some-row".into()); }
+    out.emit(&Case {
+        kind: "filter".into(),
+        input: format!("{} over {}", p.show(), show_chunks(&cs)),
+        coq: Some(format!("chk_filter {} {} {}", p.coq(), coq_chunks(&cs), coq_rows(&rows))),
+        show: Some(format!("show_filter {} {}", p.coq(), coq_chunks(&cs))),
+        oracle: if ok { Oracle::Ok } else { Oracle::Fail },
+        msg: if ok { String::new() } else { format!("Filter returned {} but the rows of the input that satisfy the predicate are {}", show_rows(&rows), show_rows(&expected)) },
+        kcoq: if ok { None } else { Some(format!("k_filter_sel {} {}", p.coq(), coq_chunks(&cs))) },
+        kid: if ok { None } else { Some("C11-K1".into()) },
+        nontrivial: unknown || has_sel,
+        imp: show_rows(&rows),
+        tags,
+        ..Default::default()
+    });
+}
+
+/// integer chunks described as (physical count, optional selection); values = global physical index
+#[derive(Clone)]
+struct Spec {
+    n: usize,
+    sel: Option<Vec<usize>>,
+}
+fn coq_specs(ss: &[Spec]) -> String {
+    coq::list(ss.iter().map(|s| {
+        format!(
+            "({}, {})",
+            coq::z(s.n as i64),
+            match &s.sel {
+                None => "None".to_string(),
+                Some(v) => format!("(Some {})", coq_runs(&runs(&v.iter().map(|&i| i as i64).collect::<Vec<_>>()))),
+            }
+        )
+    }))
+}
+fn show_specs(ss: &[Spec]) -> String {
+    ss.iter()
+        .map(|s| match &s.sel { None => format!("{}", s.n), Some(v) => format!("{}[sel {}]", s.n, v.len()) })
+        .collect::<Vec<_>>()
+        .join("+")
+}
+fn build_specs(ss: &[Spec], f: &dyn Fn(i64) -> i64, typed: bool) -> (Vec<DataChunk>, Vec<i64>) {
+    let mut base = 0i64;
+    let mut chunks = Vec::new();
+    let mut logical = Vec::new();
+    for s in ss {
+        let rows: Vec<Vec<V>> = (0..s.n).map(|i| vec![V::Int(f(base + i as i64))]).collect();
+        match &s.sel {
+            None => logical.extend((0..s.n).map(|i| f(base + i as i64))),
+            Some(v) => logical.extend(v.iter().map(|&i| f(base + i as i64))),
+        }
+        chunks.push(Chunk { rows, sel: s.sel.clone() }.build(1, typed));
+        base += s.n as i64;
+    }
+    (chunks, logical)
+}
+fn gen_big_sel(r: &mut Rng, n: usize) -> Option<Vec<usize>> {
+    match r.below(6) {
+        0 | 1 | 2 => None,
+        3 => Some((0..n).filter(|i| i % 2 == 0).collect()),
+        4 => {
+            let a = r.below(n as u64 + 1) as usize;
+            Some((a..n).collect())
+        }
+        _ => {
+            // a few runs
+            let mut v = Vec::new();
+            let mut i = 0;
+            while i < n {
+                let l = 1 + r.below(700) as usize;
+                if r.chance(2, 3) {
+                    v.extend(i..(i + l).min(n));
+                }
+                i += l;
+            }
+            Some(v)
+        }
+    }
+}
+const SIZES: [usize; 12] = [0, 1, 2, 3, 2047, 2048, 2049, 4095, 4096, 4097, 1000, 5000];
+fn gen_specs(r: &mut Rng, big: bool) -> Vec<Spec> {
+    let mut ss = Vec::new();
+    if big {
+        match r.below(4) {
+            0 => {
+                // scan-like: full batches of 2048 and a tail
+                let total = *r.pick(&[2047usize, 2048, 2049, 4095, 4096, 4097, 6144]);
+                let mut left = total;
+                while left > 0 {
+                    let n = left.min(2048);
+                    ss.push(Spec { n, sel: None });
+                    left -= n;
+                }
+            }
+            1 => {
+                // batches with selection vectors (the output of a filter)
+                for _ in 0..(1 + r.below(3)) {
+                    let n = *r.pick(&[2048usize, 2047, 2049, 1, 100]);
+                    ss.push(Spec { n, sel: gen_big_sel(r, n) });
+                }
+            }
+            _ => {
+                for _ in 0..(1 + r.below(4)) {
+                    let n = *r.pick(&SIZES);
+                    ss.push(Spec { n, sel: if r.chance(1, 2) { gen_big_sel(r, n) } else { None } });
+                }
+            }
+        }
+    } else {
+        for _ in 0..r.below(6) {
+            let n = match r.below(5) { 0 => 0, 1 => 1, _ => r.below(9) as usize };
+            ss.push(Spec { n, sel: gen_sel(r, n) });
+        }
+    }
+    ss
+}
+fn gen_bound(r: &mut Rng, total: usize, big: bool) -> usize {
+    if big {
+        match r.below(5) {
+            0 | 1 => *r.pick(&[0usize, 1, 2047, 2048, 2049, 4095, 4096, 4097]),
+            2 => total + r.below(3) as usize,
+            3 => total.saturating_sub(r.below(3) as usize),
+            _ => r.below(total as u64 + 2) as usize,
+        }
+    } else {
+        match r.below(6) {
+            0 => 0,
+            1 => total,
+            2 => total + 1,
+            3 => 1_000_000,
+            _ => r.below(total as u64 + 2) as usize,
+        }
+    }
+}
+
+fn case_window(r: &mut Rng, out: &mut Out, big: bool, forced: Option<(u64, usize, usize, Vec<Spec>)>) {
+    let (kind, s, n, ss) = match forced {
+        Some(x) => x,
+        None => {
+            let ss = gen_specs(r, big);
+            let total: usize = ss.iter().map(|s| s.sel.as_ref().map_or(s.n, |v| v.len())).sum();
+            (r.below(4), gen_bound(r, total, big), gen_bound(r, total, big), ss)
+        }
+    };
+    let typed = r.chance(1, 2);
+    let (chunks, logical) = build_specs(&ss, &|i| i, typed);
+    let schema = vec![LogicalType::Any];
+    let child = Mock::new(chunks);
+    let (kname, kcoq, mut op): (&str, &str, Box<dyn Operator>) = match kind {
+        0 => ("limit", "WLimit", Box::new(LimitOperator::new(child, n, schema))),
+        1 => ("skip", "WSkip", Box::new(SkipOperator::new(child, s, schema))),
+        2 => ("skip;limit", "WSkipLimit", Box::new(LimitOperator::new(Box::new(SkipOperator::new(child, s, schema.clone())), n, schema))),
+        _ => ("limitskip", "WFused", Box::new(LimitSkipOperator::new(child, s, n, schema))),
+    };
+    let (rows, counts) = drain(op.as_mut());
+    let got: Vec<i64> = rows.iter().map(|r| match &r[0] { V::Int(i) => *i, _ => -1 }).collect();
+    let (es, en) = match kind { 0 => (0, n), 1 => (s, usize::MAX), _ => (s, n) };
+    let expected: Vec<i64> = logical.iter().skip(es).take(en).cloned().collect();
+    let ok = got == expected;
+    // crossing a chunk boundary: the window starts or ends strictly inside the input and there are >= 2 non-empty chunks
+    let total = logical.len();
+    let crossing = ss.iter().filter(|s| s.sel.as_ref().map_or(s.n, |v| v.len()) > 0).count() >= 2 && ((es > 0 && es < total) || (en < total));
+    let mut tags = tag(&["op:window", &format!("window:{}", kname)]);
+    if big { tags.push("window:big".into()); }
+    if crossing { tags.push("window:crosses-chunk-boundary".into()); }
+    if ss.iter().any(|s| s.sel.is_some()) { tags.push("window:input-has-selection".into()); }
+    for b in [2047usize, 2048, 2049, 4095, 4096, 4097] {
+        if (kind != 0 && s == b) || (kind != 1 && n == b) { tags.push(format!("window:bound-{}", b)); }
+    }
+    out.emit(&Case {
+        kind: "window".into(),
+        input: format!("{} s={} n={} chunks={}", kname, s, n, show_specs(&ss)),
+        coq: Some(format!(
+            "chk_window {} {} {} {} {} {}",
+            kcoq, coq::z(s as i64), coq::z(n as i64), coq_specs(&ss), coq_runs(&runs(&got)),
+            coq::list(counts.iter().map(|c| coq::z(*c as i64)))
+        )),
+        oracle: if ok { Oracle::Ok } else { Oracle::Fail },
+        msg: if ok { String::new() } else { format!("returned {} expected rows {}..{} = {}", show_ints(&got), es, en, show_ints(&expected)) },
+        nontrivial: crossing,
+        imp: format!("{} chunks={:?}", show_ints(&got), counts),
+        tags,
+        ..Default::default()
+    });
+}
+
+fn dedup_struct(rows: &[Vec<V>]) -> Vec<Vec<V>> {
+    let mut out: Vec<Vec<V>> = Vec::new();
+    for r in rows {
+        if !out.contains(r) {
+            out.push(r.clone());
+        }
+    }
+    out
+}
+/// values for DISTINCT / GROUP BY inputs: collisions of the row key are reachable
+fn gen_key_value(r: &mut Rng) -> V {
+    if r.chance(2, 5) {
+        return V::Int(r.range(0, 2));
+    }
+    match r.below(12) {
+        0 => V::Null,
+        1 => V::Bool(r.chance(1, 2)),
+        2 | 3 | 4 => V::Int(r.range(0, 3)),
+        5 => V::Int(*r.pick(&[0i64, 4607182418800017408, 4609434218613702656, i64::MIN, -9223372036854775808])),
+        6 => f(*r.pick(&[0.0, 1.0, 1.5, -0.0])),
+        7 => V::Str((*r.pick(&["a", "b", "", "List([Int64(1)])", "List([])", "Null"])).to_string()),
+        8 => V::List(vec![V::Int(1)]),
+        9 => V::List(vec![]),
+        10 => gen_list(r, false),
+        _ => V::Int(r.range(0, 2)),
+    }
+}
+
+fn case_distinct(r: &mut Rng, out: &mut Out, forced: Option<Vec<Chunk>>) {
+    let ncols = 1 + r.below(2) as usize;
+    let cs = match forced {
+        Some(c) => c,
+        None => gen_small_chunks(r, ncols, &|r, _| gen_key_value(r)),
+    };
+    let ncols = cs.iter().flat_map(|c| c.rows.first()).map(|r| r.len()).next().unwrap_or(ncols);
+    let mut op = DistinctOperator::new(Mock::new(cs.iter().map(|c| c.build(ncols, false)).collect()), vec![LogicalType::Any; ncols]);
+    let (rows, _) = drain(&mut op);
+    let logical: Vec<Vec<V>> = cs.iter().flat_map(|c| c.logical()).collect();
+    let expected = dedup_struct(&logical);
+    let ok = rows == expected;
+    let dups = expected.len() < logical.len();
+    let mut tags = tag(&["op:distinct"]);
+    if dups { tags.push("distinct:has-duplicates".into()); }
+    if cs.len() >= 2 { tags.push("distinct:several-chunks".into()); }
+    let all: String = coq_rows(&logical);
+    out.emit(&Case {
+        kind: "distinct".into(),
+        input: show_chunks(&cs),
+        coq: Some(format!("chk_distinct {} {}", coq_chunks(&cs), coq_rows(&rows))),
+        show: Some(format!("show_distinct {}", coq_chunks(&cs))),
+        oracle: if ok { Oracle::Ok } else { Oracle::Fail },
+        msg: if ok { String::new() } else { format!("Distinct returned {} but the distinct rows are {}", show_rows(&rows), show_rows(&expected)) },
+        kcoq: if ok { None } else { Some(format!("k_key_collision {}", all)) },
+        kid: if ok { None } else { Some("C11-K4".into()) },
+        nontrivial: dups && cs.len() >= 2,
+        imp: show_rows(&rows),
+        tags,
+        ..Default::default()
+    });
+}
+
+/// big inputs: value of physical row i = i mod m
+fn case_distinct_mod(r: &mut Rng, out: &mut Out, forced: Option<(i64, Vec<Spec>)>) {
+    let (m, ss) = match forced {
+        Some(x) => x,
+        None => {
+            let m = *r.pick(&[1i64, 3, 2047, 2048, 2049, 5000, 100000]);
+            let ss = if r.chance(1, 2) {
+                // engine-like: no chunk above 2048 rows
+                (0..(1 + r.below(3))).map(|_| { let n = *r.pick(&[2048usize, 2047, 1, 1500]); Spec { n, sel: gen_big_sel(r, n) } }).collect()
+            } else {
+                gen_specs(r, true)
+            };
+            (m, ss)
+        }
+    };
+    let (chunks, logical) = build_specs(&ss, &|i| i % m, r.chance(1, 2));
+    let mut op = DistinctOperator::new(Mock::new(chunks), vec![LogicalType::Any]);
+    let (rows, _) = drain(&mut op);
+    let got: Vec<i64> = rows.iter().map(|r| match &r[0] { V::Int(i) => *i, _ => -1 }).collect();
+    let mut seen = std::collections::HashSet::new();
+    let expected: Vec<i64> = logical.iter().filter(|x| seen.insert(**x)).cloned().collect();
+    let ok = got == expected;
+    let over = ss.iter().any(|s| s.sel.as_ref().map_or(s.n, |v| v.len()) > 2048);
+    let mut tags = tag(&["op:distinct", "distinct:big"]);
+    if over { tags.push("distinct:input-chunk-above-2048".into()); }
+    out.emit(&Case {
+        kind: "distinct_mod".into(),
+        input: format!("i mod {} chunks={}", m, show_specs(&ss)),
+        coq: Some(format!("chk_distinct_mod {} {} {}", coq::z(m), coq_specs(&ss), coq::list(got.iter().map(|x| coq::z(*x))))),
+        oracle: if ok { Oracle::Ok } else { Oracle::Fail },
+        msg: if ok { String::new() } else { format!("Distinct returned {} rows, the input has {} distinct rows", got.len(), expected.len()) },
+        kcoq: if ok { None } else { Some(format!("k_distinct_overflow_mod {} {}", coq::z(m), coq_specs(&ss))) },
+        kid: if ok { None } else { Some("C11-K5".into()) },
+        nontrivial: ss.len() >= 2 || over,
+        imp: show_ints(&got),
+        tags,
+        ..Default::default()
+    });
+}
+
+fn case_union(r: &mut Rng, out: &mut Out) {
+    let nin = r.below(4) as usize;
+    let inputs: Vec<Vec<Chunk>> = (0..nin).map(|_| gen_small_chunks(r, 1, &|r, _| V::Int(r.range(0, 9)))).collect();
+    let ops: Vec<Box<dyn Operator>> = inputs.iter().map(|cs| Mock::new(cs.iter().map(|c| c.build(1, false)).collect()) as Box<dyn Operator>).collect();
+    let mut op = UnionOperator::new(ops, vec![LogicalType::Any]);
+    let (rows, _) = drain(&mut op);
+    let expected: Vec<Vec<V>> = inputs.iter().flat_map(|cs| cs.iter().flat_map(|c| c.logical())).collect();
+    let ok = rows == expected;
+    out.emit(&Case {
+        kind: "union".into(),
+        input: inputs.iter().map(|cs| format!("<{}>", show_chunks(cs))).collect::<Vec<_>>().join(" U "),
+        coq: Some(format!("chk_union {} {}", coq::list(inputs.iter().map(|cs| coq_chunks(cs))), coq_rows(&rows))),
+        oracle: if ok { Oracle::Ok } else { Oracle::Fail },
+        msg: if ok { String::new() } else { "Union is not the concatenation of its inputs".into() },
+        nontrivial: inputs.iter().filter(|cs| cs.iter().any(|c| !c.logical().is_empty())).count() >= 2,
+        imp: show_rows(&rows),
+        tags: tag(&["op:union"]),
+        ..Default::default()
+    });
+}
+
+fn case_agg(r: &mut Rng, out: &mut Out) {
+    let ncols = 2usize;
+    let cs = gen_small_chunks(r, ncols, &|r, _| gen_key_value(r));
+    let logical: Vec<Vec<V>> = cs.iter().flat_map(|c| c.logical()).collect();
+    let mk = |cs: &Vec<Chunk>| Mock::new(cs.iter().map(|c| c.build(ncols, false)).collect());
+    if r.chance(1, 3) {
+        // global: count-star and count(col 1)
+        let mut op = SimpleAggregateOperator::new(mk(&cs), vec![AggregateExpr::count_star(), AggregateExpr::count(1)], vec![LogicalType::Int64, LogicalType::Int64]);
+        let (rows, _) = drain(&mut op);
+        let nn = logical.iter().filter(|r| r[1] != V::Null).count() as i64;
+        let expected = vec![vec![V::Int(logical.len() as i64), V::Int(nn)]];
+        let ok = rows == expected;
+        out.emit(&Case {
+            kind: "agg_simple".into(),
+            input: show_chunks(&cs),
+            coq: Some(format!("chk_simple_agg [AggCountStar; AggCount 1%nat] {} {}", coq_chunks(&cs), coq_rows(&rows))),
+            oracle: if ok { Oracle::Ok } else { Oracle::Fail },
+            msg: if ok { String::new() } else { format!("count = {} but the input has {} rows ({} non-null)", show_rows(&rows), logical.len(), nn) },
+            nontrivial: cs.len() >= 2,
+            imp: show_rows(&rows),
+            tags: tag(&["op:count"]),
+            ..Default::default()
+        });
+    } else {
+        // GROUP BY column 0: count-star, count(col 1)
+        let mut op = HashAggregateOperator::new(mk(&cs), vec![0], vec![AggregateExpr::count_star(), AggregateExpr::count(1)], vec![LogicalType::Any, LogicalType::Int64, LogicalType::Int64]);
+        let (rows, _) = drain(&mut op);
+        let mut expected: Vec<Vec<V>> = Vec::new();
+        for row in &logical {
+            if let Some(g) = expected.iter_mut().find(|g| g[0] == row[0]) {
+                if let V::Int(c) = &mut g[1] { *c += 1; }
+                if row[1] != V::Null { if let V::Int(c) = &mut g[2] { *c += 1; } }
+            } else {
+                expected.push(vec![row[0].clone(), V::Int(1), V::Int(if row[1] != V::Null { 1 } else { 0 })]);
+            }
+        }
+        let ok = rows == expected;
+        out.emit(&Case {
+            kind: "agg_hash".into(),
+            input: show_chunks(&cs),
+            coq: Some(format!("chk_hash_agg [0%nat] [AggCountStar; AggCount 1%nat] {} {}", coq_chunks(&cs), coq_rows(&rows))),
+            show: Some(format!("show_hash_agg [0%nat] [AggCountStar; AggCount 1%nat] {}", coq_chunks(&cs))),
+            oracle: if ok { Oracle::Ok } else { Oracle::Fail },
+            msg: if ok { String::new() } else { format!("groups {} expected {}", show_rows(&rows), show_rows(&expected)) },
+            kcoq: if ok { None } else { Some(format!("k_group_key [0%nat] {}", coq_rows(&logical))) },
+            kid: if ok { None } else { Some("C11-K4".into()) },
+            nontrivial: cs.len() >= 2 && expected.len() < logical.len(),
+            imp: show_rows(&rows),
+            tags: tag(&["op:group-count"]),
+            ..Default::default()
+        });
+    }
+}
+
+fn case_agg_big(r: &mut Rng, out: &mut Out) {
+    let ss = gen_specs(r, true);
+    if r.chance(1, 2) {
+        let (chunks, logical) = build_specs(&ss, &|i| i, true);
+        let mut op = SimpleAggregateOperator::new(Mock::new(chunks), vec![AggregateExpr::count_star()], vec![LogicalType::Int64]);
+        let (rows, _) = drain(&mut op);
+        let ok = rows == vec![vec![V::Int(logical.len() as i64)]];
+        out.emit(&Case {
+            kind: "agg_simple_big".into(),
+            input: format!("count-star chunks={}", show_specs(&ss)),
+            coq: Some(format!("chk_simple_agg_int [AggCountStar] {} {}", coq_specs(&ss), coq_rows(&rows))),
+            oracle: if ok { Oracle::Ok } else { Oracle::Fail },
+            msg: if ok { String::new() } else { format!("count = {} but the input has {} rows", show_rows(&rows), logical.len()) },
+            nontrivial: ss.len() >= 2,
+            imp: show_rows(&rows),
+            tags: tag(&["op:count", "count:big"]),
+            ..Default::default()
+        });
+    } else {
+        let m = *r.pick(&[3i64, 2048, 2049, 5000]);
+        let (chunks, logical) = build_specs(&ss, &|i| i % m, false);
+        let mut op = HashAggregateOperator::new(Mock::new(chunks), vec![0], vec![AggregateExpr::count_star()], vec![LogicalType::Any, LogicalType::Int64]);
+        let (rows, _) = drain(&mut op);
+        let mut order: Vec<i64> = Vec::new();
+        let mut cnt: HashMap<i64, i64> = HashMap::new();
+        for x in &logical {
+            if !cnt.contains_key(x) { order.push(*x); }
+            *cnt.entry(*x).or_insert(0) += 1;
+        }
+        let expected: Vec<Vec<V>> = order.iter().map(|k| vec![V::Int(*k), V::Int(cnt[k])]).collect();
+        let ok = rows == expected;
+        out.emit(&Case {
+            kind: "agg_hash_big".into(),
+            input: format!("group by i mod {} count-star chunks={}", m, show_specs(&ss)),
+            coq: Some(format!("chk_hash_agg_mod {} {} {}", coq::z(m), coq_specs(&ss), coq_rows(&rows))),
+            oracle: if ok { Oracle::Ok } else { Oracle::Fail },
+            msg: if ok { String::new() } else { format!("{} groups, expected {}", rows.len(), expected.len()) },
+            nontrivial: true,
+            imp: format!("{} groups", rows.len()),
+            tags: tag(&["op:group-count", "count:big"]),
+            ..Default::default()
+        });
+    }
+}
+
+// ------------------------------------------------------------------------------------ engine level
+
+use grafeo_engine::query::plan::{LogicalOperator, LogicalPlan, UnionOp};
+use grafeo_engine::query::{Executor, Optimizer, Planner, translate_gql};
+
+struct Graph {
+    db: GrafeoDB,
+    /// node number (= property `id`) -> properties p0..p3
+    tab: Vec<Vec<Option<V>>>,
+    label: &'static str,
+    /// big table: node i has the single property p0 = (a * i) mod m
+    perm: Option<(i64, i64)>,
+}
+impl Graph {
+    fn coq_tab(&self) -> String {
+        match self.perm {
+            Some((a, m)) => format!("(perm_tab {} {})", coq::z(a), coq::z(m)),
+            None => coq_tab(&self.tab),
+        }
+    }
+    fn show_tab(&self) -> String {
+        match self.perm {
+            Some((a, m)) => format!("p0 = ({} * i) mod {} for i < {}", a, m, m),
+            None => show_tab(&self.tab),
+        }
+    }
+}
+const NPROPS: usize = 4;
+
+fn run_query(db: &GrafeoDB, l: Lang, q: &str) -> Result<Vec<Vec<V>>, String> {
+    let qs = q.to_string();
+    let r = catch(std::panic::AssertUnwindSafe(|| {
+        let s = db.session();
+        match l {
+            Lang::Gql => s.execute(&qs),
+            Lang::Cypher => s.execute_cypher(&qs),
+        }
+    }));
+    match r {
+        Err(p) => Err(format!("PANIC {}", p)),
+        Ok(Err(e)) => Err(format!("ERR {}", e).replace('\n', " ")),
+        Ok(Ok(res)) => Ok(res.rows.iter().map(|row| row.iter().map(V::from_value).collect()).collect()),
+    }
+}
+fn ints_of(rows: &[Vec<V>]) -> Vec<i64> {
+    rows.iter().map(|r| match r.first() { Some(V::Int(i)) => *i, _ => i64::MIN }).collect()
+}
+fn sorted(mut v: Vec<i64>) -> Vec<i64> {
+    v.sort();
+    v
+}
+fn coq_ints(xs: &[i64]) -> String {
+    if xs.len() > 64 {
+        format!("(expand_runs {})", coq_runs(&runs(xs)))
+    } else {
+        coq::list(xs.iter().map(|x| coq::z(*x)))
+    }
+}
+fn coq_tab(tab: &[Vec<Option<V>>]) -> String {
+    coq::list(tab.iter().map(|e| coq_env(e)))
+}
+fn show_tab(tab: &[Vec<Option<V>>]) -> String {
+    tab.iter()
+        .map(|e| format!("({})", e.iter().map(|o| o.as_ref().map_or("-".into(), |v| v.show())).collect::<Vec<_>>().join(",")))
+        .collect::<Vec<_>>()
+        .join("")
+}
+
+fn gen_table_value(r: &mut Rng, col: usize) -> Option<V> {
+    if r.chance(1, 6) {
+        return None;
+    }
+    Some(match col {
+        0 => match r.below(10) {
+            0 => V::Null,
+            1 => V::Int(*r.pick(&[i64::MAX, i64::MIN, i64::MAX - 1, 4611686018427387904, -4611686018427387904, 3037000500, 9007199254740993])),
+            2 => V::Bool(r.chance(1, 2)),
+            3 => V::Str((*r.pick(&["a", "ab", "7"])).to_string()),
+            _ => V::Int(r.range(-2, 9)),
+        },
+        1 => match r.below(8) {
+            0 => V::Null,
+            1 | 2 => f(r.range(-4, 14) as f64 / 2.0),
+            3 => f(*r.pick(&[f64::NAN, f64::INFINITY, f64::NEG_INFINITY, -0.0, 0.0, 9007199254740992.0, 1e300])),
+            4 => V::Str(gen_str(r)),
+            5 => V::List(vec![V::Int(1), V::Int(r.range(1, 3))]),
+            _ => V::Int(r.range(0, 7)),
+        },
+        2 => match r.below(6) {
+            0 => V::Null,
+            1 => V::Int(r.range(0, 3)),
+            _ => V::Str(gen_str(r)),
+        },
+        _ => match r.below(6) {
+            0 => V::Null,
+            1 => V::Int(r.range(0, 1)),
+            2 => V::Str("true".into()),
+            _ => V::Bool(r.chance(1, 2)),
+        },
+    })
+}
+
+fn build_graph(r: &mut Rng, forced: Option<Vec<Vec<Option<V>>>>) -> Graph {
+    let db = GrafeoDB::new_in_memory();
+    let tab: Vec<Vec<Option<V>>> = match forced {
+        Some(t) => t,
+        None => {
+            let n = match r.below(8) { 0 => 0, 1 => 1, _ => 2 + r.below(13) as usize };
+            (0..n).map(|_| (0..NPROPS).map(|c| gen_table_value(r, c)).collect()).collect()
+        }
+    };
+    let n = tab.len();
+    // distinct integer keys in a scrambled order (for ORDER BY / windows)
+    let mult = *r.pick(&[1usize, 3, 5, 7, 11]);
+    for (i, en) in tab.iter().enumerate() {
+        // noise nodes of another label share the property names (zone maps cover all nodes)
+        if r.chance(1, 4) {
+            let m = db.create_node(&["M"]);
+            db.set_node_property(m, "p0", V::Int(r.range(-50, 50)).to_value());
+            if r.chance(1, 2) { db.set_node_property(m, "p1", gen_float(r).to_value()); }
+            db.set_node_property(m, "id", Value::Int64(1000 + i as i64));
+        }
+        let id = db.create_node(&["L"]);
+        db.set_node_property(id, "id", Value::Int64(i as i64));
+        let k = if n == 0 { 0 } else { ((i * mult + 3) % n.max(1)) as i64 * 2 - 3 };
+        db.set_node_property(id, "k", Value::Int64(if mult_coprime(mult, n) { k } else { i as i64 * 2 - 3 }));
+        for (c, o) in en.iter().enumerate() {
+            if let Some(v) = o {
+                db.set_node_property(id, &format!("p{}", c), v.to_value());
+            }
+        }
+    }
+    Graph { db, tab, label: "L", perm: None }
+}
+fn gcd(a: usize, b: usize) -> usize {
+    if b == 0 { a } else { gcd(b, a % b) }
+}
+fn mult_coprime(m: usize, n: usize) -> bool {
+    n > 0 && gcd(m, n) == 1
+}
+
+fn has_stored_null(tab: &[Vec<Option<V>>], c: usize) -> bool {
+    tab.iter().any(|e| matches!(e.get(c), Some(Some(V::Null))))
+}
+/// keep the generated predicates off the zone-map `<>` disagreement (finding K6, witnessed by the corpus)
+fn avoid_zone_ne(e: E, tab: &[Vec<Option<V>>]) -> E {
+    match e {
+        E::Bin(op @ (Op::And | Op::Or), a, b) => E::Bin(op, Box::new(avoid_zone_ne(*a, tab)), Box::new(avoid_zone_ne(*b, tab))),
+        E::Bin(Op::Ne, a, b) => match (&*a, &*b) {
+            (E::Var(i), E::Lit(_)) | (E::Lit(_), E::Var(i)) if has_stored_null(tab, *i) => E::Un(UOp::Not, Box::new(E::Bin(Op::Eq, a, b))),
+            _ => E::Bin(Op::Ne, a, b),
+        },
+        other => other,
+    }
+}
+fn range_atom(e: &E) -> Option<usize> {
+    match e {
+        E::Bin(Op::Lt | Op::Le | Op::Gt | Op::Ge, a, b) => match (&**a, &**b) {
+            (E::Var(i), E::Lit(_)) | (E::Lit(_), E::Var(i)) => Some(*i),
+            _ => None,
+        },
+        _ => None,
+    }
+}
+fn range_shaped(e: &E) -> bool {
+    match e {
+        E::Bin(Op::And, a, b) => matches!((range_atom(a), range_atom(b)), (Some(i), Some(j)) if i == j),
+        _ => range_atom(e).is_some(),
+    }
+}
+fn zone_ne_shaped(e: &E) -> bool {
+    matches!(e, E::Bin(Op::Ne, a, b) if matches!((&**a, &**b), (E::Var(_), E::Lit(_)) | (E::Lit(_), E::Var(_))))
+}
+
+fn pred_tags(p: &E, tags: &mut Vec<String>) {
+    if p.has(&|x| matches!(x, E::Bin(Op::Add | Op::Sub | Op::Mul | Op::Div | Op::Mod, _, _))) { tags.push("pred:arithmetic".into()); }
+    if p.has(&|x| matches!(x, E::Bin(Op::In, _, _))) { tags.push("pred:in".into()); }
+    if p.has(&|x| matches!(x, E::Bin(Op::StartsWith | Op::EndsWith | Op::Contains, _, _))) { tags.push("pred:string".into()); }
+    if p.has(&|x| matches!(x, E::Bin(Op::And | Op::Or | Op::Xor, _, _) | E::Un(UOp::Not, _))) { tags.push("pred:connective".into()); }
+    if p.has(&|x| matches!(x, E::Un(UOp::IsNull | UOp::IsNotNull, _))) { tags.push("pred:is-null".into()); }
+    if range_shaped(p) { tags.push("pred:range-path".into()); }
+}
+
+/// Q vs Q WHERE p / WHERE NOT p / WHERE (p) IS NULL, and count(n) vs the number of rows
+fn case_eng_part(r: &mut Rng, g: &Graph, out: &mut Out, forced: Option<(E, Lang)>) {
+    let ctx = GenCtx { nvars: NPROPS, text_only: true };
+    let (p, lang) = match forced {
+        Some(x) => x,
+        None => {
+            let mut p;
+            loop {
+                p = avoid_zone_ne(gen_pred(r, ctx, 2), &g.tab);
+                if p.text(Lang::Cypher).is_some() { break; }
+            }
+            let lang = if p.text(Lang::Gql).is_some() && r.chance(1, 2) { Lang::Gql } else { Lang::Cypher };
+            (p, lang)
+        }
+    };
+    let label = g.label;
+    let pt = p.text(lang).unwrap();
+    let pc = p.text(Lang::Cypher).unwrap();
+    let queries = [
+        (Lang::Cypher, format!("MATCH (n:{}) RETURN n.id", label)),
+        (lang, format!("MATCH (n:{}) WHERE {} RETURN n.id", label, pt)),
+        (lang, format!("MATCH (n:{}) WHERE (NOT {}) RETURN n.id", label, pt)),
+        (Lang::Cypher, format!("MATCH (n:{}) WHERE ({} IS NULL) RETURN n.id", label, pc)),
+        (lang, format!("MATCH (n:{}) WHERE {} RETURN count(n)", label, pt)),
+    ];
+    let mut res = Vec::new();
+    for (l, q) in &queries {
+        match run_query(&g.db, *l, q) {
+            Ok(rows) => res.push(rows),
+            Err(e) => {
+                out.emit(&Case {
+                    kind: "eng_part".into(),
+                    input: format!("{} | {} | table {}", lang.name(), q, g.show_tab()),
+                    oracle: if e.starts_with("PANIC") { Oracle::Fail } else { Oracle::Na },
+                    msg: e.clone(),
+                    imp: e,
+                    tags: tag(&["eng:part", "eng:query-rejected"]),
+                    ..Default::default()
+                });
+                return;
+            }
+        }
+    }
+    let scan = ints_of(&res[0]);
+    let (o1, o2, o3) = (ints_of(&res[1]), ints_of(&res[2]), ints_of(&res[3]));
+    let cnt = match res[4].first().and_then(|r| r.first()) { Some(V::Int(c)) => *c, _ => -1 };
+    let mut all = o1.clone();
+    all.extend(&o2);
+    all.extend(&o3);
+    let ok = sorted(all) == sorted(scan.clone()) && cnt == o1.len() as i64 && res[4].len() == 1;
+    let (kid, kcoq) = if ok {
+        (None, None)
+    } else if range_shaped(&p) {
+        (Some("C11-K8".to_string()), Some(format!("k_range_path {} {} {}", g.coq_tab(), coq_ints(&scan), p.coq())))
+    } else if zone_ne_shaped(&p) {
+        (Some("C11-K6".to_string()), Some(format!("k_zone_ne {} {}", g.coq_tab(), p.coq())))
+    } else {
+        (None, None)
+    };
+    let mut tags = tag(&["eng:part", &format!("lang:{}", lang.name())]);
+    pred_tags(&p, &mut tags);
+    if !o3.is_empty() { tags.push("pred:unknown-on-some-row".into()); }
+    // the zone-map witness is pruned by the planner, which the model of the Filter does not describe
+    let corr = if zone_ne_shaped(&p) && !ok {
+        None
+    } else {
+        Some(format!("chk_eng_part {} {} {} {} {} {} {}", g.coq_tab(), coq_ints(&scan), p.coq(), coq_ints(&sorted(o1.clone())), coq_ints(&sorted(o2.clone())), coq_ints(&sorted(o3.clone())), coq::z(cnt)))
+    };
+    out.emit(&Case {
+        kind: "eng_part".into(),
+        input: format!("{} WHERE {} | table {}", lang.name(), pt, g.show_tab()),
+        coq: corr,
+        show: Some(format!("show_eng_part {} {} {}", g.coq_tab(), coq_ints(&scan), p.coq())),
+        oracle: if ok { Oracle::Ok } else { Oracle::Fail },
+        msg: if ok { String::new() } else { format!("Q={:?} p={:?} NOT p={:?} (p) IS NULL={:?} count={}: the three parts do not split Q / count differs", sorted(scan.clone()), sorted(o1.clone()), sorted(o2.clone()), sorted(o3.clone()), cnt) },
+        kcoq,
+        kid,
+        nontrivial: !o3.is_empty(),
+        imp: format!("p={:?} not={:?} null={:?} count={}", sorted(o1), sorted(o2), sorted(o3), cnt),
+        tags,
+        ..Default::default()
+    });
+}
+
+fn not_range(r: &mut Rng, ctx: GenCtx, tab: &[Vec<Option<V>>], l: Lang) -> E {
+    loop {
+        let p = avoid_zone_ne(gen_pred(r, ctx, 1), tab);
+        if !range_shaped(&p) && p.text(l).is_some() {
+            return p;
+        }
+    }
+}
+
+/// two stacked filters
+fn case_eng_stack(r: &mut Rng, g: &Graph, out: &mut Out, forced: Option<(bool, E, E, Lang)>) {
+    let ctx = GenCtx { nvars: NPROPS, text_only: true };
+    let (pattern_form, p1, p2, lang) = match forced {
+        Some(x) => x,
+        None => {
+            let lang = if r.chance(1, 2) { Lang::Gql } else { Lang::Cypher };
+            let pattern_form = r.chance(1, 2);
+            let p1 = if pattern_form {
+                // a value of the table (printable), or a small literal
+                let c = r.below(NPROPS as u64) as usize;
+                let cands: Vec<V> = g.tab.iter().filter_map(|e| e[c].clone()).filter(|v| !matches!(v, V::Null | V::List(_)) && v.text().is_some()).collect();
+                let v = if cands.is_empty() || r.chance(1, 5) { V::Int(r.range(0, 3)) } else { r.pick(&cands).clone() };
+                E::Bin(Op::Eq, Box::new(E::Var(c)), Box::new(E::Lit(v)))
+            } else if r.chance(1, 4) {
+                // a range predicate below: answered by the range path, no selection vector arises
+                E::Bin(*r.pick(&[Op::Gt, Op::Le]), Box::new(E::Var(0)), Box::new(E::Lit(V::Int(r.range(0, 5)))))
+            } else {
+                not_range(r, ctx, &g.tab, lang)
+            };
+            (pattern_form, p1, not_range(r, ctx, &g.tab, lang), lang)
+        }
+    };
+    let q = if pattern_form {
+        let (c, v) = match &p1 { E::Bin(Op::Eq, a, b) => match (&**a, &**b) { (E::Var(c), E::Lit(v)) => (*c, v.clone()), _ => unreachable!() }, _ => unreachable!() };
+        format!("MATCH (n:{} {{p{}: {}}}) WHERE {} RETURN n.id", g.label, c, v.text().unwrap(), p2.text(lang).unwrap())
+    } else {
+        format!("MATCH (n:{}) WHERE {} WITH n WHERE {} RETURN n.id", g.label, p1.text(lang).unwrap(), p2.text(lang).unwrap())
+    };
+    let base = run_query(&g.db, Lang::Cypher, &format!("MATCH (n:{}) RETURN n.id", g.label));
+    let a = run_query(&g.db, lang, &format!("MATCH (n:{}) WHERE {} RETURN n.id", g.label, p1.text(lang).unwrap()));
+    let b = run_query(&g.db, lang, &format!("MATCH (n:{}) WHERE {} RETURN n.id", g.label, p2.text(lang).unwrap()));
+    let got = run_query(&g.db, lang, &q);
+    let (base, a, b, got) = match (base, a, b, got) {
+        (Ok(x), Ok(a), Ok(b), Ok(c)) => (ints_of(&x), ints_of(&a), ints_of(&b), ints_of(&c)),
+        (_, _, _, e) => {
+            let m = format!("{:?}", e.err());
+            out.emit(&Case { kind: "eng_stack".into(), input: format!("{} | {}", lang.name(), q), oracle: if m.contains("PANIC") { Oracle::Fail } else { Oracle::Na }, msg: m.clone(), imp: m, tags: tag(&["eng:stack", "eng:query-rejected"]), ..Default::default() });
+            return;
+        }
+    };
+    let expected: Vec<i64> = sorted(a.iter().filter(|x| b.contains(x)).cloned().collect());
+    let ok = sorted(got.clone()) == expected;
+    let tabc = g.coq_tab();
+    out.emit(&Case {
+        kind: "eng_stack".into(),
+        input: format!("{} | {} | table {}", lang.name(), q, g.show_tab()),
+        coq: Some(format!("chk_eng_stacked {} {} {} {} {}", tabc, coq_ints(&base), p1.coq(), p2.coq(), coq_ints(&sorted(got.clone())))),
+        show: Some(format!("show_eng_stacked {} {} {} {}", tabc, coq_ints(&base), p1.coq(), p2.coq())),
+        oracle: if ok { Oracle::Ok } else { Oracle::Fail },
+        msg: if ok { String::new() } else { format!("returned {:?}; the rows satisfying both predicates are {:?}", sorted(got.clone()), expected) },
+        kcoq: if ok { None } else { Some(format!("k_stacked {} {} {} {}", tabc, coq_ints(&base), p1.coq(), p2.coq())) },
+        kid: if ok { None } else { Some("C11-K1".into()) },
+        nontrivial: !a.is_empty() && a.len() < base.len(),
+        imp: format!("{:?}", sorted(got)),
+        tags: tag(&["eng:stack", &format!("lang:{}", lang.name()), if pattern_form { "stack:pattern-map+where" } else { "stack:where-with-where" }]),
+        ..Default::default()
+    });
+}
+
+fn opt_text(kw: &str, o: Option<usize>) -> String {
+    match o { Some(v) => format!(" {} {}", kw, v), None => String::new() }
+}
+fn window_spec(keys: &[i64], ord: bool, s: Option<usize>, n: Option<usize>) -> Vec<i64> {
+    let mut k = keys.to_vec();
+    if ord { k.sort(); }
+    k.into_iter().skip(s.unwrap_or(0)).take(n.unwrap_or(usize::MAX)).collect()
+}
+fn gen_small_bound(r: &mut Rng, n: usize) -> Option<usize> {
+    match r.below(6) { 0 => None, 1 => Some(0), 2 => Some(n), 3 => Some(n + 2), _ => Some(r.below(n as u64 + 1) as usize) }
+}
+
+/// SKIP s LIMIT n windows; `prop` is the (distinct, integer) key property of label `label`
+fn case_eng_window(g: &GrafeoDB, label: &str, prop: &str, perm: Option<(i64, i64)>, lang: Lang, ord: bool, s: Option<usize>, n: Option<usize>, out: &mut Out) {
+    let q = match lang {
+        Lang::Gql => format!("MATCH (n:{}) RETURN n.{}{}{}{}", label, prop, if ord { format!(" ORDER BY n.{}", prop) } else { String::new() }, opt_text("SKIP", s), opt_text("LIMIT", n)),
+        Lang::Cypher => format!("MATCH (n:{}) WITH n.{} AS k RETURN k{}{}{}", label, prop, if ord { " ORDER BY k" } else { "" }, opt_text("SKIP", s), opt_text("LIMIT", n)),
+    };
+    let base = run_query(g, Lang::Cypher, &format!("MATCH (n:{}) RETURN n.{}", label, prop));
+    let got = run_query(g, lang, &q);
+    let (keys, got) = match (base, got) {
+        (Ok(b), Ok(x)) if x.iter().all(|r| r.len() == 1) => (ints_of(&b), ints_of(&x)),
+        (_, e) => {
+            let m = format!("{:?}", e.map(|x| show_rows(&x)));
+            out.emit(&Case { kind: "eng_window".into(), input: format!("{} | {}", lang.name(), q), oracle: if m.contains("PANIC") { Oracle::Fail } else { Oracle::Na }, msg: m.clone(), imp: m, tags: tag(&["eng:window", "eng:query-rejected"]), ..Default::default() });
+            return;
+        }
+    };
+    let expected = window_spec(&keys, ord, s, n);
+    let ok = got == expected;
+    let so = coq_oz(s.map(|x| x as i64));
+    let no = coq_oz(n.map(|x| x as i64));
+    // the big table is described by its generator when the scan order is the creation order
+    let perm_ok = perm.map_or(false, |(a, m)| keys.len() as i64 == m && keys.iter().enumerate().all(|(i, k)| *k == (a * i as i64) % m));
+    let (coqt, kc) = if perm_ok {
+        let (a, m) = perm.unwrap();
+        (format!("chk_eng_window_perm {} {} {} {} {} {} {}", lang.coq(), coq::b(ord), so, no, coq::z(a), coq::z(m), coq_ints(&got)),
+         format!("k_gql_window_perm {} {} {} {} {}", coq::b(ord), so, no, coq::z(a), coq::z(m)))
+    } else {
+        (format!("chk_eng_window {} {} {} {} {} {}", lang.coq(), coq::b(ord), so, no, coq_ints(&keys), coq_ints(&got)),
+         format!("k_gql_window {} {} {} {}", coq::b(ord), so, no, coq_ints(&keys)))
+    };
+    let total = keys.len();
+    let crossing = total > 2048 && (s.map_or(false, |x| x > 0 && x < total) || n.map_or(false, |x| x < total));
+    let mut tags = tag(&["eng:window", &format!("lang:{}", lang.name()), if ord { "window:ordered" } else { "window:unordered" }]);
+    if crossing { tags.push("window:crosses-chunk-boundary".into()); }
+    for b in [2047usize, 2048, 2049, 4095, 4096, 4097] {
+        if s == Some(b) || n == Some(b) { tags.push(format!("window:bound-{}", b)); }
+    }
+    out.emit(&Case {
+        kind: "eng_window".into(),
+        input: format!("{} | {} | {} rows", lang.name(), q, total),
+        coq: Some(coqt),
+        oracle: if ok { Oracle::Ok } else { Oracle::Fail },
+        msg: if ok { String::new() } else { format!("returned {} expected {}", show_ints(&got), show_ints(&expected)) },
+        kcoq: if ok { None } else { Some(kc) },
+        kid: if ok { None } else { Some("C11-K2".into()) },
+        nontrivial: crossing || (ord && (s.is_some() || n.is_some())),
+        imp: show_ints(&got),
+        tags,
+        ..Default::default()
+    });
+}
+
+fn case_eng_count(g: &GrafeoDB, label: &str, lang: Lang, s: Option<usize>, n: Option<usize>, out: &mut Out) {
+    let q = format!("MATCH (n:{}) RETURN count(n){}{}", label, opt_text("SKIP", s), opt_text("LIMIT", n));
+    let base = run_query(g, Lang::Cypher, &format!("MATCH (n:{}) RETURN n.id", label));
+    let got = run_query(g, lang, &q);
+    let (total, rows) = match (base, got) {
+        (Ok(b), Ok(x)) => (b.len(), x),
+        (_, e) => {
+            let m = format!("{:?}", e.err());
+            out.emit(&Case { kind: "eng_count".into(), input: format!("{} | {}", lang.name(), q), oracle: if m.contains("PANIC") { Oracle::Fail } else { Oracle::Na }, msg: m.clone(), imp: m, tags: tag(&["eng:count", "eng:query-rejected"]), ..Default::default() });
+            return;
+        }
+    };
+    let expected: Vec<Vec<V>> = vec![vec![V::Int(total as i64)]].into_iter().skip(s.unwrap_or(0)).take(n.unwrap_or(usize::MAX)).collect();
+    let ok = rows == expected;
+    let so = coq_oz(s.map(|x| x as i64));
+    let no = coq_oz(n.map(|x| x as i64));
+    out.emit(&Case {
+        kind: "eng_count".into(),
+        input: format!("{} | {} | {} rows", lang.name(), q, total),
+        coq: Some(format!("chk_eng_count {} {} {} {} {}", lang.coq(), so, no, coq::z(total as i64), coq_rows(&rows))),
+        oracle: if ok { Oracle::Ok } else { Oracle::Fail },
+        msg: if ok { String::new() } else { format!("returned {} expected {}", show_rows(&rows), show_rows(&expected)) },
+        kcoq: if ok { None } else { Some(format!("k_gql_count {} {} {}", so, no, coq::z(total as i64))) },
+        kid: if ok { None } else { Some("C11-K2".into()) },
+        nontrivial: total > 0 && (s.is_some() || n.is_some()),
+        imp: show_rows(&rows),
+        tags: tag(&["eng:count", &format!("lang:{}", lang.name())]),
+        ..Default::default()
+    });
+}
+
+/// DISTINCT / GROUP BY on one projected property
+fn case_eng_distinct(r: &mut Rng, g: &Graph, out: &mut Out, forced: Option<(usize, u64, Lang)>) {
+    let (c, form, lang) = forced.unwrap_or_else(|| (r.below(NPROPS as u64) as usize, r.below(3), if r.chance(1, 2) { Lang::Gql } else { Lang::Cypher }));
+    let base = run_query(&g.db, Lang::Cypher, &format!("MATCH (n:L) RETURN n.p{}", c));
+    let q = match form {
+        0 => format!("MATCH (n:L) RETURN DISTINCT n.p{}", c),
+        1 => format!("MATCH (n:L) WITH DISTINCT n.p{} AS v RETURN v", c),
+        _ => format!("MATCH (n:L) RETURN n.p{}, count(n)", c),
+    };
+    let got = run_query(&g.db, lang, &q);
+    let (vals, rows) = match (base, got) {
+        (Ok(b), Ok(x)) => (b.iter().map(|r| r[0].clone()).collect::<Vec<V>>(), x),
+        (_, e) => {
+            let m = format!("{:?}", e.err());
+            out.emit(&Case { kind: "eng_distinct".into(), input: format!("{} | {}", lang.name(), q), oracle: if m.contains("PANIC") { Oracle::Fail } else { Oracle::Na }, msg: m.clone(), imp: m, tags: tag(&["eng:distinct", "eng:query-rejected"]), ..Default::default() });
+            return;
+        }
+    };
+    let as_rows: Vec<Vec<V>> = vals.iter().map(|v| vec![v.clone()]).collect();
+    let valsc = coq::list(vals.iter().map(|v| v.coq()));
+    let (expected, coqt, kid, kc, t) = match form {
+        0 => (dedup_struct(&as_rows), format!("chk_eng_return_distinct {} {}", valsc, coq_rows(&rows)), "C11-K3", format!("k_return_distinct {}", valsc), "distinct:return-distinct"),
+        1 => (dedup_struct(&as_rows), format!("chk_eng_with_distinct {} {}", valsc, coq_rows(&rows)), "C11-K4", format!("k_key_collision_vals {}", valsc), "distinct:with-distinct"),
+        _ => {
+            let mut e: Vec<Vec<V>> = Vec::new();
+            for v in &vals {
+                if let Some(gr) = e.iter_mut().find(|gr| gr[0] == *v) {
+                    if let V::Int(c) = &mut gr[1] { *c += 1; }
+                } else {
+                    e.push(vec![v.clone(), V::Int(1)]);
+                }
+            }
+            (e, format!("chk_eng_group_count {} {}", valsc, coq_rows(&rows)), "C11-K4", format!("(k_group_key_vals {} || k_key_collision_vals {})", valsc, valsc), "distinct:group-count")
+        }
+    };
+    let ok = rows == expected;
+    let dups = dedup_struct(&as_rows).len() < as_rows.len();
+    out.emit(&Case {
+        kind: "eng_distinct".into(),
+        input: format!("{} | {} | values {}", lang.name(), q, vals.iter().map(|v| v.show()).collect::<Vec<_>>().join(",")),
+        coq: Some(coqt),
+        oracle: if ok { Oracle::Ok } else { Oracle::Fail },
+        msg: if ok { String::new() } else { format!("returned {} expected {}", show_rows(&rows), show_rows(&expected)) },
+        kcoq: if ok { None } else { Some(kc) },
+        kid: if ok { None } else { Some(kid.into()) },
+        nontrivial: dups,
+        imp: show_rows(&rows),
+        tags: tag(&["eng:distinct", &format!("lang:{}", lang.name()), t]),
+        ..Default::default()
+    });
+}
+
+/// UNION ALL: (a) the Union operator reached through the public planner, (b) the GQL text
+fn case_eng_union(r: &mut Rng, g: &Graph, out: &mut Out) {
+    let m1 = 2 + r.below(2);
+    let q1 = format!("MATCH (n:L) WHERE ((n.id % {}) = 0) RETURN n.id", m1);
+    let q2 = if r.chance(1, 5) { "MATCH (n:L) WHERE ((n.id + 0) < 0) RETURN n.id".to_string() } else { format!("MATCH (n:L) WHERE ((n.id % {}) = 1) RETURN n.id", 2 + r.below(2)) };
+    let (a, b) = match (run_query(&g.db, Lang::Gql, &q1), run_query(&g.db, Lang::Gql, &q2)) {
+        (Ok(a), Ok(b)) => (ints_of(&a), ints_of(&b)),
+        _ => return,
+    };
+    let mut expected = a.clone();
+    expected.extend(&b);
+    // (a) planner
+    let planned = catch(std::panic::AssertUnwindSafe(|| -> Result<Vec<i64>, String> {
+        let p1 = translate_gql(&q1).map_err(|e| e.to_string())?;
+        let p2 = translate_gql(&q2).map_err(|e| e.to_string())?;
+        let plan = LogicalPlan::new(LogicalOperator::Union(UnionOp { inputs: vec![p1.root, p2.root] }));
+        let plan = Optimizer::from_store(g.db.store()).optimize(plan).map_err(|e| e.to_string())?;
+        let mut phys = Planner::new(Arc::clone(g.db.store())).plan(&plan).map_err(|e| e.to_string())?;
+        let res = Executor::with_columns(phys.columns.clone()).execute(phys.operator.as_mut()).map_err(|e| e.to_string())?;
+        Ok(res.rows.iter().map(|row| match row.first() { Some(Value::Int64(i)) => *i, _ => i64::MIN }).collect())
+    }));
+    match planned {
+        Ok(Ok(got)) => {
+            let ok = got == expected;
+            out.emit(&Case {
+                kind: "eng_union".into(),
+                input: format!("planner Union[{} ; {}]", q1, q2),
+                coq: Some(format!("chk_eng_union {} {} {}", coq_ints(&a), coq_ints(&b), coq_ints(&got))),
+                oracle: if ok { Oracle::Ok } else { Oracle::Fail },
+                msg: if ok { String::new() } else { format!("returned {:?} expected {:?}", got, expected) },
+                nontrivial: !a.is_empty() && !b.is_empty(),
+                imp: format!("{:?}", got),
+                tags: tag(&["eng:union", "union:planner"]),
+                ..Default::default()
+            });
+        }
+        other => {
+            let m = format!("{:?}", other);
+            out.emit(&Case { kind: "eng_union".into(), input: format!("planner Union[{} ; {}]", q1, q2), oracle: Oracle::Fail, msg: m.clone(), imp: m, tags: tag(&["eng:union", "union:planner"]), ..Default::default() });
+        }
+    }
+    // (b) GQL text
+    let q = format!("{} UNION ALL {}", q1, q2);
+    match run_query(&g.db, Lang::Gql, &q) {
+        Ok(rows) => {
+            let got = ints_of(&rows);
+            let ok = got == expected;
+            out.emit(&Case {
+                kind: "eng_union_text".into(),
+                input: format!("gql | {}", q),
+                // as implemented: the text after the first RETURN clause is ignored
+                coq: Some(format!("zlist_eqb {} {}", coq_ints(&a), coq_ints(&got))),
+                oracle: if ok { Oracle::Ok } else { Oracle::Fail },
+                msg: if ok { String::new() } else { format!("returned {:?} expected {:?}", got, expected) },
+                kcoq: if ok { None } else { Some(format!("k_gql_union {}", coq_ints(&b))) },
+                kid: if ok { None } else { Some("C11-K7".into()) },
+                nontrivial: !b.is_empty(),
+                imp: format!("{:?}", got),
+                tags: tag(&["eng:union", "union:gql-text"]),
+                ..Default::default()
+            });
+        }
+        Err(e) => {
+            out.emit(&Case { kind: "eng_union_text".into(), input: format!("gql | {}", q), oracle: if e.starts_with("PANIC") { Oracle::Fail } else { Oracle::Na }, msg: e.clone(), imp: e, tags: tag(&["eng:union", "eng:query-rejected"]), ..Default::default() });
+        }
+    }
+}
+
+// ------------------------------------------------------------------------------------ big table, corpus, main
+
+const BIG_A: i64 = 1237;
+const BIG_M: i64 = 4100;
+
+fn build_big() -> Graph {
+    let db = GrafeoDB::new_in_memory();
+    let mut tab = Vec::new();
+    for i in 0..BIG_M {
+        let id = db.create_node(&["B"]);
+        let k = (BIG_A * i) % BIG_M;
+        db.set_node_property(id, "id", Value::Int64(i));
+        db.set_node_property(id, "p0", Value::Int64(k));
+        tab.push(vec![Some(V::Int(k))]);
+    }
+    Graph { db, tab, label: "B", perm: Some((BIG_A, BIG_M)) }
+}
+fn lit(i: i64) -> Box<E> {
+    Box::new(E::Lit(V::Int(i)))
+}
+fn var0() -> Box<E> {
+    Box::new(E::Var(0))
+}
+
+fn big_cases(r: &mut Rng, out: &mut Out, thorough: bool) {
+    let g = build_big();
+    // windows over 4100 rows (three scan batches)
+    let bounds = [0usize, 1, 2047, 2048, 2049, 4095, 4096, 4097, 4100, 5000];
+    let mut combos: Vec<(Lang, bool, Option<usize>, Option<usize>)> = vec![
+        (Lang::Gql, false, Some(2047), Some(2)), (Lang::Gql, false, Some(2048), Some(2049)), (Lang::Gql, false, Some(2049), None),
+        (Lang::Gql, false, None, Some(2048)), (Lang::Gql, false, Some(4095), Some(10)), (Lang::Gql, false, Some(1), Some(4097)),
+        (Lang::Cypher, false, Some(2047), Some(2049)), (Lang::Cypher, false, Some(4096), Some(4)), (Lang::Cypher, false, None, Some(2049)),
+        (Lang::Cypher, true, Some(2047), Some(2)), (Lang::Cypher, true, Some(2048), Some(2048)), (Lang::Cypher, true, Some(4097), Some(5)),
+        (Lang::Cypher, true, None, Some(2049)), (Lang::Cypher, true, Some(2049), None),
+        (Lang::Gql, true, Some(2047), Some(2)), (Lang::Gql, true, None, Some(2048)), (Lang::Gql, true, Some(2049), None), (Lang::Gql, true, None, None),
+    ];
+    for _ in 0..(if thorough { 60 } else { 10 }) {
+        let s = if r.chance(1, 4) { None } else { Some(*r.pick(&bounds)) };
+        let n = if r.chance(1, 4) { None } else { Some(*r.pick(&bounds)) };
+        let ord = r.chance(1, 4);
+        combos.push((if r.chance(1, 2) { Lang::Gql } else { Lang::Cypher }, ord, s, n));
+    }
+    for (l, ord, s, n) in combos {
+        case_eng_window(&g.db, "B", "p0", g.perm, l, ord, s, n, out);
+    }
+    // counts
+    for (l, s, n) in [(Lang::Gql, None, None), (Lang::Cypher, None, None), (Lang::Gql, Some(2049), None), (Lang::Gql, None, Some(2048)), (Lang::Cypher, Some(1), None), (Lang::Cypher, None, Some(1)), (Lang::Cypher, Some(0), Some(0))] {
+        case_eng_count(&g.db, "B", l, s, n, out);
+    }
+    // predicates over several batches
+    let preds: Vec<E> = vec![
+        E::Bin(Op::Lt, var0(), lit(2048)),
+        E::Bin(Op::Lt, Box::new(E::Bin(Op::Add, var0(), lit(0))), lit(2049)),
+        E::Bin(Op::Eq, Box::new(E::Bin(Op::Mod, var0(), lit(2))), lit(0)),
+        E::Bin(Op::Ge, var0(), lit(4096)),
+        E::Bin(Op::And, Box::new(E::Bin(Op::Ge, var0(), lit(2047))), Box::new(E::Bin(Op::Le, var0(), lit(2049)))),
+        E::Bin(Op::Gt, Box::new(E::Bin(Op::Mul, var0(), lit(4611686018427387904))), lit(0)),
+        E::Bin(Op::Or, Box::new(E::Bin(Op::Eq, Box::new(E::Bin(Op::Div, lit(1), Box::new(E::Bin(Op::Sub, var0(), lit(2048))))), lit(1))), Box::new(E::Bin(Op::Gt, var0(), lit(4000)))),
+        E::Bin(Op::In, Box::new(E::Bin(Op::Mod, var0(), lit(1000))), Box::new(E::List(vec![E::Lit(V::Int(0)), E::Lit(V::Int(47)), E::Lit(V::Int(999))]))),
+    ];
+    for p in preds {
+        let l = if p.text(Lang::Gql).is_some() && r.chance(1, 2) { Lang::Gql } else { Lang::Cypher };
+        case_eng_part(r, &g, out, Some((p, l)));
+    }
+    // stacked filters over several batches
+    let m2 = E::Bin(Op::Eq, Box::new(E::Bin(Op::Mod, var0(), lit(2))), lit(0));
+    let m3 = E::Bin(Op::Eq, Box::new(E::Bin(Op::Mod, var0(), lit(3))), lit(0));
+    let far = E::Bin(Op::Gt, Box::new(E::Bin(Op::Add, var0(), lit(0))), lit(4098));
+    case_eng_stack(r, &g, out, Some((false, m2.clone(), m3.clone(), Lang::Cypher)));
+    case_eng_stack(r, &g, out, Some((false, far.clone(), m3.clone(), Lang::Gql)));
+    case_eng_stack(r, &g, out, Some((false, E::Bin(Op::Lt, var0(), lit(2048)), m3, Lang::Cypher)));
+    case_eng_stack(r, &g, out, Some((true, E::Bin(Op::Eq, var0(), lit(7)), m2, Lang::Gql)));
+}
+
+fn corpus(r: &mut Rng, out: &mut Out) {
+    // checked arithmetic (repaired by f0940d4: these used to panic)
+    let mx = i64::MAX;
+    let mn = i64::MIN;
+    let one = |v: V| vec![vec![Some(v), None, None]];
+    for (e, envs) in [
+        (E::Bin(Op::Add, var0(), lit(1)), one(V::Int(mx))),
+        (E::Bin(Op::Div, var0(), lit(0)), one(V::Int(5))),
+        (E::Bin(Op::Div, var0(), lit(-1)), one(V::Int(mn))),
+        (E::Un(UOp::Neg, var0()), one(V::Int(mn))),
+        (E::Bin(Op::Mod, var0(), lit(-1)), one(V::Int(mn))),
+        (E::Bin(Op::Mod, var0(), lit(0)), one(V::Int(3))),
+        (E::Bin(Op::Mul, var0(), lit(2)), one(V::Int(4611686018427387904))),
+        (E::Bin(Op::Sub, var0(), lit(1)), one(V::Int(mn))),
+        (E::Bin(Op::Gt, Box::new(E::Bin(Op::Add, var0(), lit(1))), lit(0)), one(V::Int(mx))),
+        // the connectives are not Kleene
+        (E::Bin(Op::And, Box::new(E::Var(1)), Box::new(E::Lit(V::Bool(false)))), one(V::Int(0))),
+        (E::Bin(Op::Or, Box::new(E::Lit(V::Bool(true))), Box::new(E::Var(1))), one(V::Int(0))),
+        (E::Bin(Op::And, Box::new(E::Lit(V::Null)), Box::new(E::Lit(V::Bool(false)))), one(V::Int(0))),
+        // NULL = NULL, NULL <> 5, cross-type numbers, epsilon equality
+        (E::Bin(Op::Eq, var0(), Box::new(E::Lit(V::Null))), one(V::Null)),
+        (E::Bin(Op::Ne, var0(), lit(5)), one(V::Null)),
+        (E::Bin(Op::Eq, var0(), Box::new(E::Lit(f(9007199254740992.0)))), one(V::Int(9007199254740993))),
+        (E::Bin(Op::Eq, Box::new(E::Var(1)), Box::new(E::Lit(f(2e-17)))), vec![vec![None, Some(f(1e-17)), None]]),
+        (E::Bin(Op::Le, Box::new(E::Var(1)), lit(1)), vec![vec![None, Some(f(f64::NAN)), None]]),
+        (E::Bin(Op::In, var0(), Box::new(E::List(vec![E::Var(1), E::Lit(V::Int(3))]))), one(V::Int(3))),
+    ] {
+        case_eval(r, out, Some((e, envs)));
+    }
+    // K1: a filter over a chunk that carries a selection vector
+    let int_row = |i: i64| vec![V::Int(i), V::Int(0)];
+    case_filter(r, out, Some((E::Bin(Op::Eq, var0(), lit(2)), vec![Chunk { rows: vec![int_row(1), int_row(2)], sel: Some(vec![0]) }])));
+    case_filter(r, out, Some((E::Bin(Op::Ge, var0(), lit(0)), vec![Chunk { rows: vec![int_row(1), int_row(2), int_row(3)], sel: Some(vec![]) }, Chunk { rows: vec![int_row(4)], sel: None }])));
+    // windows at the batch boundary
+    for (k, s, n, sizes) in [
+        (0u64, 0usize, 2048usize, vec![2048usize, 2048]), (0, 0, 2049, vec![2048, 2048]), (0, 0, 2047, vec![2048, 2048]),
+        (1, 2048, 0, vec![2048, 2048]), (1, 2047, 0, vec![2048, 2]), (1, 2049, 0, vec![2048, 2]),
+        (2, 2047, 2, vec![2048, 2048]), (2, 2048, 2048, vec![2048, 2048, 5]), (3, 2047, 2, vec![2048, 2048]),
+        (3, 2049, 2047, vec![2048, 2048, 1]), (3, 0, 4097, vec![2048, 2048, 1]), (3, 4096, 1, vec![2048, 2048, 1]),
+    ] {
+        case_window(r, out, true, Some((k, s, n, sizes.into_iter().map(|n| Spec { n, sel: None }).collect())));
+    }
+    // K4: row key collisions
+    case_distinct(r, out, Some(vec![Chunk { rows: vec![vec![V::Int(4607182418800017408)], vec![f(1.0)], vec![V::Int(0)], vec![f(0.0)]], sel: None }]));
+    case_distinct(r, out, Some(vec![Chunk { rows: vec![vec![V::List(vec![V::Int(1)])]], sel: None }, Chunk { rows: vec![vec![V::Str("List([Int64(1)])".into())]], sel: None }]));
+    // K5: more than 2048 fresh rows in one input chunk
+    case_distinct_mod(r, out, Some((100000, vec![Spec { n: 2049, sel: None }])));
+    case_distinct_mod(r, out, Some((100000, vec![Spec { n: 2048, sel: None }, Spec { n: 2048, sel: None }, Spec { n: 4, sel: None }])));
+    // engine witnesses on a fixed table: (p0, p1, p2, p3)
+    let row = |a: Option<V>, b: Option<V>| vec![a, b, None, None];
+    let g = build_graph(r, Some(vec![
+        row(Some(V::Int(1)), Some(V::Int(1))), row(Some(V::Int(0)), Some(V::Int(2))), row(Some(V::Int(5)), Some(f(1.0))),
+        row(Some(V::Null), Some(V::Int(4607182418800017408))), row(None, Some(f(0.0))), row(Some(V::Int(5)), Some(V::Int(0))),
+        row(Some(V::Bool(true)), Some(f(1.0))),
+    ]));
+    let eq = |c: usize, v: i64| E::Bin(Op::Eq, Box::new(E::Var(c)), lit(v));
+    for l in [Lang::Gql, Lang::Cypher] {
+        case_eng_stack(r, &g, out, Some((true, eq(0, 1), eq(1, 2), l)));
+        case_eng_stack(r, &g, out, Some((false, eq(0, 1), eq(1, 2), l)));
+        case_eng_window(&g.db, "L", "k", None, l, true, Some(2), Some(3), out);
+        case_eng_window(&g.db, "L", "k", None, l, true, None, Some(1), out);
+        case_eng_window(&g.db, "L", "k", None, l, false, Some(2), Some(3), out);
+        case_eng_count(&g.db, "L", l, None, Some(1), out);
+        case_eng_count(&g.db, "L", l, Some(3), None, out);
+        case_eng_count(&g.db, "L", l, None, None, out);
+        for form in 0..3 {
+            case_eng_distinct(r, &g, out, Some((1, form, l)));
+            case_eng_distinct(r, &g, out, Some((0, form, l)));
+        }
+        // arithmetic at the extremes inside a comparison: unknown, not a panic
+        case_eng_part(r, &g, out, Some((E::Bin(Op::Gt, Box::new(E::Bin(Op::Add, var0(), lit(mx))), lit(0)), l)));
+        case_eng_part(r, &g, out, Some((E::Bin(Op::Eq, Box::new(E::Bin(Op::Div, var0(), lit(0))), lit(1)), l)));
+        case_eng_part(r, &g, out, Some((E::Bin(Op::Or, Box::new(eq(2, 1)), Box::new(E::Lit(V::Bool(true)))), l)));
+    }
+    // K6: zone map vs evaluator on <> with a stored NULL (p0 of M-noise nodes would widen the zone map: own table)
+    let gz = build_graph(&mut Rng::new(7), Some(vec![vec![None, None, None, Some(V::Int(5))], vec![None, None, None, Some(V::Null)]]));
+    case_eng_part(r, &gz, out, Some((E::Bin(Op::Ne, Box::new(E::Var(3)), lit(5)), Lang::Cypher)));
+    // K8: range path vs evaluator
+    case_eng_part(r, &g, out, Some((E::Bin(Op::Gt, var0(), Box::new(E::Lit(f(1.5)))), Lang::Cypher)));
+    case_eng_part(r, &g, out, Some((E::Bin(Op::Gt, var0(), Box::new(E::Lit(V::Bool(false)))), Lang::Cypher)));
+    case_eng_part(r, &g, out, Some((E::Bin(Op::Gt, var0(), lit(1)), Lang::Gql)));
+    // K7
+    case_eng_union(r, &g, out);
+}
+
+fn main() {
+    quiet_panics();
+    let a = parse_args();
+    let mut out = Out::create(a.out.as_deref());
+    let mut r = Rng::new(a.seed);
+    let thorough = a.tier == "thorough";
+    corpus(&mut r.fork(), &mut out);
+    big_cases(&mut r.fork(), &mut out, thorough);
+    // operator level: 60% of the cases
+    let n_op = a.cases * 6 / 10;
+    for i in 0..n_op {
+        match i % 20 {
+            0..=6 => case_eval(&mut r, &mut out, None),
+            7..=9 => case_filter(&mut r, &mut out, None),
+            10 | 11 => case_window(&mut r, &mut out, false, None),
+            12 => case_window(&mut r, &mut out, true, None),
+            13 | 14 => case_distinct(&mut r, &mut out, None),
+            15 => if i % 100 == 15 { case_distinct_mod(&mut r, &mut out, None) } else { case_window(&mut r, &mut out, i % 40 == 15, None) },
+            16 => case_union(&mut r, &mut out),
+            17 | 18 => case_agg(&mut r, &mut out),
+            _ => if i % 100 == 19 { case_agg_big(&mut r, &mut out) } else { case_filter(&mut r, &mut out, None) },
+        }
+    }
+    // engine level: graphs with ~16 cases each
+    let n_graphs = (a.cases - n_op) / 16;
+    for _ in 0..n_graphs {
+        let g = build_graph(&mut r, None);
+        for _ in 0..8 {
+            case_eng_part(&mut r, &g, &mut out, None);
+        }
+        case_eng_stack(&mut r, &g, &mut out, None);
+        case_eng_stack(&mut r, &g, &mut out, None);
+        case_eng_distinct(&mut r, &g, &mut out, None);
+        case_eng_distinct(&mut r, &g, &mut out, None);
+        let n = g.tab.len();
+        for _ in 0..2 {
+            let l = if r.chance(1, 2) { Lang::Gql } else { Lang::Cypher };
+            let (s, k) = (gen_small_bound(&mut r, n), gen_small_bound(&mut r, n));
+            case_eng_window(&g.db, "L", "k", None, l, r.chance(1, 2), s, k, &mut out);
+        }
+        let l = if r.chance(1, 2) { Lang::Gql } else { Lang::Cypher };
+        let (s, k) = (gen_small_bound(&mut r, 2), gen_small_bound(&mut r, 2));
+        case_eng_count(&g.db, "L", l, s, k, &mut out);
+        case_eng_union(&mut r, &g, &mut out);
+    }
+    out.finish();
 }
